@@ -12,9 +12,10 @@
 //!   * whatever the decoder accepts re-encodes to exactly the bytes it consumed (canonical form);
 //!   * each canonical-form violation is refused.
 use chrono::{DateTime, Utc};
-use grin_chain::txhashset::{BitmapChunk, BitmapSegment};
+use grin_chain::txhashset::{BitmapAccumulator, BitmapChunk, BitmapSegment};
 use grin_chain::types::Tip;
 use grin_core::core::pmmr::segment::{Segment, SegmentIdentifier, SegmentProof};
+use grin_core::core::pmmr::{ReadonlyPMMR, VecBackend, PMMR};
 use grin_core::core::hash::{Hash, Hashed};
 use grin_core::core::{
 	Block, BlockHeader, CommitWrapper, CompactBlock, HeaderVersion, Input, Inputs, KernelFeatures,
@@ -24,7 +25,7 @@ use grin_core::core::{
 use grin_core::global::{self, ChainTypes};
 use grin_core::pow::{Difficulty, Proof, ProofOfWork};
 use grin_core::ser::{
-	self, BinReader, DeserializationMode, ProtocolVersion, Readable, Reader, Writeable,
+	self, BinReader, DeserializationMode, PMMRable, ProtocolVersion, Readable, Reader, Writeable,
 };
 use grin_keychain::BlindingFactor;
 use grin_util::secp::pedersen::{Commitment, RangeProof};
@@ -48,6 +49,11 @@ struct Ctx {
 	out: Out,
 	rng: Rng,
 	stats: BTreeMap<String, u64>,
+	/// deliberately generated EMPTY / SINGLETON / MAXIMAL instances per serialisable type
+	/// (`#STAT empties <type>=<count>`)
+	empties: BTreeMap<String, u64>,
+	/// oracle failures already printed (the same object is not reported twice)
+	reported: BTreeSet<String>,
 	thorough: bool,
 }
 
@@ -55,6 +61,42 @@ impl Ctx {
 	fn stat(&mut self, k: String) {
 		*self.stats.entry(k).or_insert(0) += 1;
 	}
+	/// count one deliberately generated corner instance (`what` = `<Type>:<corner>`)
+	fn corner(&mut self, what: &str) {
+		*self.empties.entry(what.to_string()).or_insert(0) += 1;
+	}
+	/// print a `#ORACLE-FAIL C10 …` line (once per distinct text) together with whatever the
+	/// generators had to report, and go on
+	fn oracle_fail(&mut self, text: String) {
+		self.flush_gen_fails();
+		if self.reported.insert(text.clone()) {
+			self.out.raw(&format!("#ORACLE-FAIL C10 {}", text));
+		}
+	}
+	/// failures met inside the value generators (which have no `Ctx` at hand)
+	fn flush_gen_fails(&mut self) {
+		let pending: Vec<String> = GEN_FAILS.with(|g| std::mem::take(&mut *g.borrow_mut()));
+		for t in pending {
+			if self.reported.insert(t.clone()) {
+				self.out.raw(&format!("#ORACLE-FAIL C10 {}", t));
+			}
+		}
+	}
+}
+
+thread_local! {
+	/// oracle failures met by the generators: an honest value whose constructor / own decoder /
+	/// own encoder failed. Printed by the next `Ctx::flush_gen_fails`.
+	static GEN_FAILS: std::cell::RefCell<Vec<String>> = std::cell::RefCell::new(Vec::new());
+}
+
+fn gen_fail(text: String) {
+	GEN_FAILS.with(|g| g.borrow_mut().push(text));
+}
+
+/// panic message as one token-free phrase
+fn one_line(msg: &str) -> String {
+	msg.replace('\n', " ")
 }
 
 fn set_env(chain: char, nrd: bool) {
@@ -88,8 +130,74 @@ fn err_name(e: &ser::Error) -> String {
 
 /// NB: `Proof::write` consults the thread-local chain type (`global::proofsize()`): callers make
 /// sure `set_env` was called for the chain the value was generated for.
+///
+/// Every call of an implementation encoder goes through here: an error is the error's enum name, a
+/// panic is `panic(<message>)` — a result the caller reports, never a crash of the harness.
 fn enc_at<T: Writeable>(x: &T, v: u32) -> Result<Vec<u8>, String> {
-	ser::ser_vec(x, ProtocolVersion(v)).map_err(|e| err_name(&e))
+	match catch(AssertUnwindSafe(|| ser::ser_vec(x, ProtocolVersion(v)))) {
+		Ok(Ok(b)) => Ok(b),
+		Ok(Err(e)) => Err(err_name(&e)),
+		Err(msg) => Err(format!("panic({})", one_line(&msg).replace(' ', "_"))),
+	}
+}
+
+/// Every call of an implementation decoder goes through here: `Ok((value, bytes consumed))`, or the
+/// error's enum name, or `panic(<message>)`.
+fn dec_full<T: Readable>(bytes: &[u8], v: u32) -> Result<(T, usize), String> {
+	let b2 = bytes.to_vec();
+	let r = catch(move || {
+		let mut src = &b2[..];
+		let r = ser::deserialize::<T, _>(&mut src, ProtocolVersion(v), DeserializationMode::default());
+		(r, src.len())
+	});
+	match r {
+		Ok((Ok(x), rest)) => Ok((x, bytes.len().saturating_sub(rest))),
+		Ok((Err(e), _)) => Err(err_name(&e)),
+		Err(msg) => Err(format!("panic({})", one_line(&msg).replace(' ', "_"))),
+	}
+}
+
+/// `hash()` of an implementation value under `catch`
+fn hash_of<T: Ty>(x: &T) -> Result<Option<String>, String> {
+	catch(AssertUnwindSafe(|| x.hash_hex())).map_err(|m| format!("panic({})", one_line(&m)))
+}
+
+/// hex of an encoding for an oracle line: whole up to 64 KiB, else the head and the length (the whole
+/// input is on the `ser dec` / `ser enc` line printed just before)
+fn shown(bytes: &[u8]) -> String {
+	if bytes.len() <= 65536 {
+		hex(bytes)
+	} else {
+		format!("{}… (first 256 of {} bytes; the whole encoding is on the preceding `ser` line)", hex(bytes.get(..256).unwrap_or(bytes)), bytes.len())
+	}
+}
+
+/// The encoding of an honestly produced value at version `v`; a value that cannot be written is an
+/// oracle failure (printed with the value's description) and `None`.
+fn own_enc<T: Ty>(cx: &mut Ctx, x: &T, v: u32) -> Option<Vec<u8>> {
+	match enc_at(x, v) {
+		Ok(b) => Some(b),
+		Err(e) => {
+			let d = catch(AssertUnwindSafe(|| x.describe())).unwrap_or_else(|_| UNDESCRIBABLE.to_string());
+			cx.oracle_fail(format!("{} cannot be encoded: {} ({}) [version {}]", T::NAME, d, e, v));
+			None
+		}
+	}
+}
+
+/// placeholder inside a description whose value could not be taken apart (its writer failed)
+const UNDESCRIBABLE: &str = "?";
+
+/// copy of the implementation encoding `b` with `with` written at `off`; `None` when `b` is too short
+/// for that (it does not have the documented layout — reported by `layout_fail`, never indexed blindly)
+fn patched(b: &[u8], off: usize, with: &[u8]) -> Option<Vec<u8>> {
+	let mut m = b.to_vec();
+	m.get_mut(off..off.checked_add(with.len())?)?.copy_from_slice(with);
+	Some(m)
+}
+
+fn layout_fail(cx: &mut Ctx, name: &str, b: &[u8], v: u32) {
+	cx.oracle_fail(format!("{} re-encodes differently: its encoding does not have the documented layout ({} bytes): {} [version {}]", name, b.len(), shown(b), v));
 }
 
 fn show_enc(r: &Result<Vec<u8>, String>) -> String {
@@ -132,6 +240,16 @@ trait Ty: Readable + Writeable + Sized {
 	fn known_differs(&self, _d: &Self, _v: u32) -> Vec<String> {
 		vec![]
 	}
+	/// does the writer refuse this (honest) value at version `v` by design? Only non-empty
+	/// `Inputs::CommitOnly` below version 3 (`UnsupportedProtocolVersion`): every other writer error
+	/// on an honest value is an oracle failure.
+	fn writer_may_refuse(&self, _v: u32) -> bool {
+		false
+	}
+}
+
+fn commit_only_below_v3(i: &Inputs, v: u32) -> bool {
+	v < 3 && matches!(i, Inputs::CommitOnly(l) if !l.is_empty())
 }
 
 fn hh(h: Hash) -> Option<String> {
@@ -394,6 +512,9 @@ fn body_segs(b: &TransactionBody, v: u32, prefix: usize) -> Vec<Seg> {
 
 impl Ty for TransactionBody {
 	const NAME: &'static str = "TransactionBody";
+	fn writer_may_refuse(&self, v: u32) -> bool {
+		commit_only_below_v3(&self.inputs, v)
+	}
 	fn hash_hex(&self) -> Option<String> {
 		None
 	}
@@ -410,6 +531,9 @@ impl Ty for TransactionBody {
 
 impl Ty for Transaction {
 	const NAME: &'static str = "Transaction";
+	fn writer_may_refuse(&self, v: u32) -> bool {
+		commit_only_below_v3(&self.body.inputs, v)
+	}
 	const HASH_STABLE: bool = false;
 	fn hash_hex(&self) -> Option<String> {
 		hh(self.hash())
@@ -498,6 +622,9 @@ impl Ty for BlockHeader {
 
 impl Ty for Block {
 	const NAME: &'static str = "Block";
+	fn writer_may_refuse(&self, v: u32) -> bool {
+		commit_only_below_v3(&self.body.inputs, v)
+	}
 	fn hash_hex(&self) -> Option<String> {
 		hh(self.hash())
 	}
@@ -673,6 +800,8 @@ enum Expect {
 }
 
 /// Print one `ser dec` line and evaluate the oracles. Returns the decoded value.
+/// Nothing in here can take the harness down: the decoder, every re-encoding and every hash run
+/// under `catch`; a failure is printed as `#ORACLE-FAIL C10 …` with the object and the run goes on.
 fn dec_case<T: Ty>(
 	cx: &mut Ctx,
 	v: u32,
@@ -684,6 +813,7 @@ fn dec_case<T: Ty>(
 	what: &str,
 ) -> Option<T> {
 	set_env(chain, nrd);
+	cx.flush_gen_fails();
 	let lhs = format!(
 		"ser dec {} {} {} {} {}",
 		T::NAME,
@@ -692,46 +822,37 @@ fn dec_case<T: Ty>(
 		chain,
 		hex(bytes)
 	);
-	let b2 = bytes.to_vec();
-	let r = catch(move || {
-		let mut src = &b2[..];
-		let r = ser::deserialize::<T, _>(&mut src, ProtocolVersion(v), DeserializationMode::default());
-		(r, src.len())
-	});
-	match r {
-		Err(msg) => {
+	match dec_full::<T>(bytes, v) {
+		Err(en) if en.starts_with("panic(") => {
 			cx.out.line(&lhs, "panic");
-			cx.out.raw(&format!(
-				"#ORACLE-FAIL C10 decoder of {} v{} panicked ({}) on {}",
-				T::NAME,
-				v,
-				msg.replace('\n', " "),
-				hex(bytes)
-			));
+			cx.oracle_fail(format!("decoder of {} panicked {} on {} [version {}]", T::NAME, en, shown(bytes), v));
+			if expect == Expect::Valid {
+				cx.oracle_fail(format!("{} does not decode from its own encoding: {} ({}) [version {}]", T::NAME, shown(bytes), en, v));
+			}
 			cx.stat(format!("{} v{} {} panic", T::NAME, v, what));
 			None
 		}
-		Ok((Err(e), _)) => {
-			let en = err_name(&e);
+		Err(en) => {
 			cx.out.line(&lhs, &format!("err {}", en));
 			cx.stat(format!("{} v{} {} err:{}", T::NAME, v, what, en));
 			if expect == Expect::Valid {
-				cx.out.raw(&format!(
-					"#ORACLE-FAIL C10 {} v{}: its own valid encoding is refused ({}): {}",
-					T::NAME,
-					v,
-					en,
-					hex(bytes)
-				));
+				cx.oracle_fail(format!("{} does not decode from its own encoding: {} ({}) [version {}]", T::NAME, shown(bytes), en, v));
 			}
 			None
 		}
-		Ok((Ok(x), rest)) => {
-			let consumed = bytes.len() - rest;
+		Ok((x, consumed)) => {
+			let consumed = consumed.min(bytes.len());
+			let eaten = bytes.get(..consumed).unwrap_or(bytes);
 			let e1 = enc_at(&x, 1);
 			let e2 = enc_at(&x, 2);
 			let e3 = enc_at(&x, 3);
-			let hs = x.hash_hex();
+			let hs = match hash_of(&x) {
+				Ok(h) => h,
+				Err(m) => {
+					cx.oracle_fail(format!("{} hash computation of the decoded value failed {}: {} [version {}]", T::NAME, m, shown(bytes), v));
+					None
+				}
+			};
 			cx.out.line(
 				&lhs,
 				&format!(
@@ -747,30 +868,33 @@ fn dec_case<T: Ty>(
 			// canonical form: what was accepted re-encodes to exactly the bytes consumed
 			let ev = enc_at(&x, v);
 			match &ev {
-				Ok(re) if re[..] == bytes[..consumed] => {}
+				Ok(re) if re[..] == *eaten => {}
 				Ok(re) => {
-					if only_proof_len_differs(&bytes[..consumed], re, &x.segs(v)) {
+					let layout = catch(AssertUnwindSafe(|| x.segs(v))).unwrap_or_default();
+					if only_proof_len_differs(eaten, re, &layout) {
 						cx.out.raw(&format!(
 							"#KNOWN-PROBE C10 rangeproof-length-normalised: {} v{} accepts a range proof length field != 675 and re-encodes it as 675 ({} bytes in, {} bytes out)",
 							T::NAME, v, consumed, re.len()
 						));
 						cx.stat(format!("{} v{} probe:rangeproof-length-normalised", T::NAME, v));
 					} else {
-						let tags = T::known_noncanon(&bytes[..consumed], re, &x, v);
+						let tags = catch(AssertUnwindSafe(|| T::known_noncanon(eaten, re, &x, v))).unwrap_or_default();
 						if tags.is_empty() {
-							cx.out.raw(&format!(
-								"#ORACLE-FAIL C10 {} v{}: non-canonical encoding accepted and normalised: in={} out={}",
+							let kind = if expect == Expect::Valid { "its own encoding" } else { "an accepted non-canonical encoding" };
+							cx.oracle_fail(format!(
+								"{} re-encodes differently ({}): in={} out={} [version {}]",
 								T::NAME,
-								v,
-								hex(&bytes[..consumed]),
-								hex(re)
+								kind,
+								shown(eaten),
+								shown(re),
+								v
 							));
 						}
 						for t in tags {
 							let shown = if consumed <= 400 {
-								hex(&bytes[..consumed])
+								hex(eaten)
 							} else {
-								format!("{}… (first 80 of {} bytes; the whole input is on the preceding `ser dec` line)", hex(&bytes[..80]), consumed)
+								format!("{}… (first 80 of {} bytes; the whole input is on the preceding `ser dec` line)", hex(eaten.get(..80).unwrap_or(eaten)), consumed)
 							};
 							cx.out.raw(&format!(
 								"#KNOWN-PROBE C10 {}: {} v{} accepts a non-canonical encoding and re-encodes it differently ({} bytes in, {} bytes out): {}",
@@ -781,52 +905,42 @@ fn dec_case<T: Ty>(
 					}
 				}
 				Err(e) => {
-					cx.out.raw(&format!(
-						"#ORACLE-FAIL C10 {} v{}: decoded value cannot be re-encoded at its own version ({}): {}",
+					cx.oracle_fail(format!(
+						"{} re-encodes differently: the decoded value cannot be re-encoded at its own version ({}): {} [version {}]",
 						T::NAME,
-						v,
 						e,
-						hex(bytes)
+						shown(bytes),
+						v
 					));
 				}
 			}
 			if expect == Expect::Reject {
-				cx.out.raw(&format!(
-					"#ORACLE-FAIL C10 {} v{}: canonical-form violation ({}) accepted: {}",
-					T::NAME,
-					v,
-					what,
-					hex(bytes)
-				));
+				cx.oracle_fail(format!("{} canonical-form violation ({}) accepted: {} [version {}]", T::NAME, what, shown(bytes), v));
 			}
 			if let (Some(o), Expect::Valid) = (orig, expect) {
-				if !o.same(&x, v) {
-					let tags = o.known_differs(&x, v);
+				if consumed != bytes.len() {
+					cx.oracle_fail(format!("{} decodes from its own encoding leaving {} of {} bytes unread: {} [version {}]", T::NAME, bytes.len() - consumed, bytes.len(), shown(bytes), v));
+				}
+				let same = catch(AssertUnwindSafe(|| o.same(&x, v)));
+				if same != Ok(true) {
+					let tags = catch(AssertUnwindSafe(|| o.known_differs(&x, v))).unwrap_or_default();
 					if tags.is_empty() {
-						cx.out.raw(&format!(
-							"#ORACLE-FAIL C10 {} v{}: decoded value differs from the encoded one: {}",
-							T::NAME,
-							v,
-							hex(bytes)
-						));
+						cx.oracle_fail(format!("{} decodes from its own encoding to a different value: {} [version {}]", T::NAME, shown(bytes), v));
 					}
 					for t in tags {
 						cx.out.raw(&format!(
 							"#KNOWN-PROBE C10 {}: {} v{} written and read back is not the value that was written: {}",
-							t, T::NAME, v, if bytes.len() <= 400 { hex(bytes) } else { format!("{}… (first 80 of {} bytes; the whole encoding is on the preceding `ser dec` line)", hex(&bytes[..80]), bytes.len()) }
+							t, T::NAME, v, if bytes.len() <= 400 { hex(bytes) } else { format!("{}… (first 80 of {} bytes; the whole encoding is on the preceding `ser dec` line)", hex(bytes.get(..80).unwrap_or(bytes)), bytes.len()) }
 						));
 						cx.stat(format!("{} v{} probe:{}", T::NAME, v, t));
 					}
 				}
-				if T::HASH_STABLE && o.hash_hex() != hs {
-					cx.out.raw(&format!(
-						"#ORACLE-FAIL C10 {} v{}: hash changed across encode/decode: {:?} -> {:?} on {}",
-						T::NAME,
-						v,
-						o.hash_hex(),
-						hs,
-						hex(bytes)
-					));
+				if T::HASH_STABLE {
+					match hash_of(o) {
+						Ok(ho) if ho == hs => {}
+						Ok(ho) => cx.oracle_fail(format!("{} hash differs across encode/decode: {:?} -> {:?} on {} [version {}]", T::NAME, ho, hs, shown(bytes), v)),
+						Err(m) => cx.oracle_fail(format!("{} hash computation failed {}: {} [version {}]", T::NAME, m, shown(bytes), v)),
+					}
 				}
 			}
 			Some(x)
@@ -837,23 +951,49 @@ fn dec_case<T: Ty>(
 /// `ser enc` line: the model must produce the same bytes / error from the described value
 fn enc_case<T: Ty>(cx: &mut Ctx, v: u32, chain: char, x: &T) -> Result<Vec<u8>, String> {
 	set_env(chain, true);
-	let lhs = format!("ser enc {} {} {} {}", T::NAME, v, chain, x.describe());
+	cx.flush_gen_fails();
 	let e = enc_at(x, v);
+	let d = catch(AssertUnwindSafe(|| x.describe())).unwrap_or_else(|_| UNDESCRIBABLE.to_string());
+	if d.contains(UNDESCRIBABLE) {
+		// the value cannot be taken apart (its own writer failed): no line for the model, but not silent
+		cx.oracle_fail(format!("{} cannot be described field by field, its writer failed: {} [version {}]", T::NAME, show_enc(&e), v));
+		cx.stat(format!("{} v{} enc undescribable", T::NAME, v));
+		return e;
+	}
+	let lhs = format!("ser enc {} {} {} {}", T::NAME, v, chain, d);
+	let hs = match hash_of(x) {
+		Ok(h) => h,
+		Err(m) => {
+			cx.oracle_fail(format!("{} hash computation failed {}: {} [version {}]", T::NAME, m, d, v));
+			None
+		}
+	};
 	cx.out.line(
 		&lhs,
 		&format!(
 			"{} {}",
 			show_enc(&e),
-			x.hash_hex().unwrap_or_else(|| "none".to_string())
+			hs.unwrap_or_else(|| "none".to_string())
 		),
 	);
 	cx.stat(format!("{} v{} enc {}", T::NAME, v, if e.is_ok() { "ok" } else { "err" }));
+	if let Err(en) = &e {
+		if en.starts_with("panic(") {
+			cx.oracle_fail(format!("encoder of {} panicked {} on {} [version {}]", T::NAME, en, d, v));
+		}
+	}
 	e
 }
 
 /// valid value: `enc` line + decode at every version + hash stays the same at every version
 fn roundtrip_all<T: Ty>(cx: &mut Ctx, chain: char, nrd: bool, x: &T, with_enc_line: bool) {
-	let h0 = x.hash_hex();
+	let h0 = match hash_of(x) {
+		Ok(h) => h,
+		Err(m) => {
+			cx.oracle_fail(format!("{} hash computation failed {}", T::NAME, m));
+			None
+		}
+	};
 	for v in VERSIONS.iter() {
 		let e = if with_enc_line {
 			enc_case(cx, *v, chain, x)
@@ -861,16 +1001,22 @@ fn roundtrip_all<T: Ty>(cx: &mut Ctx, chain: char, nrd: bool, x: &T, with_enc_li
 			set_env(chain, nrd);
 			enc_at(x, *v)
 		};
-		if let Ok(bytes) = e {
-			if let Some(d) = dec_case::<T>(cx, *v, nrd, chain, &bytes, Some(x), Expect::Valid, "valid") {
-				if T::HASH_STABLE && d.hash_hex() != h0 {
-					cx.out.raw(&format!(
-						"#ORACLE-FAIL C10 {}: identity hash depends on protocol version {}: {}",
-						T::NAME,
-						v,
-						hex(&bytes)
-					));
+		match e {
+			Ok(bytes) => {
+				if let Some(d) = dec_case::<T>(cx, *v, nrd, chain, &bytes, Some(x), Expect::Valid, "valid") {
+					if T::HASH_STABLE && hash_of(&d).ok().flatten() != h0 {
+						cx.oracle_fail(format!("{} hash differs between versions (identity hash depends on protocol version {}): {}", T::NAME, v, shown(&bytes)));
+					}
 				}
+			}
+			Err(en) => {
+				// writers that legitimately refuse (CommitOnly inputs below version 3) say so through
+				// `writer_may_refuse`; anything else is an honest value that cannot be written
+				if !x.writer_may_refuse(*v) {
+					let d = catch(AssertUnwindSafe(|| x.describe())).unwrap_or_else(|_| UNDESCRIBABLE.to_string());
+					cx.oracle_fail(format!("{} cannot be encoded: {} ({}) [version {}]", T::NAME, d, en, v));
+				}
+				cx.stat(format!("{} v{} valid enc-err:{}", T::NAME, v, en));
 			}
 		}
 	}
@@ -925,14 +1071,16 @@ fn pick_u64(rng: &mut Rng) -> u64 {
 }
 
 fn fee_fields(raw: u64) -> grin_core::core::FeeFields {
-	// the only way to build an arbitrary raw FeeFields is to read it
+	// the only way to build an arbitrary raw FeeFields is to read it (its own encoding: 8 bytes
+	// big-endian); a reader that refuses it is reported and the low 32 bits are used instead
 	let b = raw.to_be_bytes();
-	ser::deserialize::<grin_core::core::FeeFields, _>(
-		&mut &b[..],
-		ProtocolVersion(1),
-		DeserializationMode::default(),
-	)
-	.unwrap()
+	match dec_full::<grin_core::core::FeeFields>(&b, 1) {
+		Ok((f, _)) => f,
+		Err(e) => {
+			gen_fail(format!("FeeFields does not decode from its own encoding: {} ({}) [version 1]", hex(&b), e));
+			grin_core::core::FeeFields::from(raw as u32)
+		}
+	}
 }
 
 fn gen_kernel_features(rng: &mut Rng, variant: u64) -> KernelFeatures {
@@ -945,15 +1093,28 @@ fn gen_kernel_features(rng: &mut Rng, variant: u64) -> KernelFeatures {
 			fee: fee_fields(pick_u64(rng)),
 			lock_height: pick_u64(rng),
 		},
-		_ => KernelFeatures::NoRecentDuplicate {
-			fee: fee_fields(pick_u64(rng)),
-			relative_height: NRDRelativeHeight::new(match rng.below(4) {
+		_ => {
+			let fee = fee_fields(pick_u64(rng));
+			let rh = match rng.below(4) {
 				0 => 1,
 				1 => 10080,
 				_ => rng.range(1, 10080),
-			})
-			.unwrap(),
-		},
+			};
+			match catch(move || NRDRelativeHeight::new(rh)) {
+				Ok(Ok(relative_height)) => KernelFeatures::NoRecentDuplicate { fee, relative_height },
+				other => {
+					gen_fail(format!("NRDRelativeHeight::new refuses the in-range relative height {} ({})", rh, if other.is_ok() { "error" } else { "panic" }));
+					KernelFeatures::HeightLocked { fee, lock_height: rh }
+				}
+			}
+		}
+	}
+}
+
+/// sorting by the implementation's `Ord` (= by `hash()`): under `catch` like every hash computation
+fn sort_by_impl<T: Ord>(v: &mut Vec<T>, what: &str) {
+	if let Err(m) = catch(AssertUnwindSafe(|| v.sort_unstable())) {
+		gen_fail(format!("hash / ordering of {} panicked while sorting ({})", what, one_line(&m)));
 	}
 }
 
@@ -965,7 +1126,8 @@ fn sig(rng: &mut Rng) -> Signature {
 	let b = rng.bytes(64);
 	let mut a = [0u8; 64];
 	a.copy_from_slice(&b);
-	Signature::from_raw_data(&a).unwrap()
+	// secp library, a plain copy of the 64 bytes (what `from_raw_data` does, without its `Result`)
+	Signature::from(grin_util::secp::ffi::Signature::from_data(a))
 }
 
 fn gen_kernel(rng: &mut Rng, variant: u64) -> TxKernel {
@@ -1040,12 +1202,12 @@ fn gen_body(rng: &mut Rng, ni: usize, no: usize, nk: usize, commit_only: bool, t
 			gen_kernel(rng, variant)
 		})
 		.collect();
-	ins.sort_unstable();
-	outs.sort_unstable();
-	kers.sort_unstable();
+	sort_by_impl(&mut ins, "ins");
+	sort_by_impl(&mut outs, "outs");
+	sort_by_impl(&mut kers, "kers");
 	let inputs = if commit_only {
 		let mut cw: Vec<CommitWrapper> = ins.iter().map(|i| i.into()).collect();
-		cw.sort_unstable();
+		sort_by_impl(&mut cw, "cw");
 		Inputs::CommitOnly(cw)
 	} else {
 		Inputs::FeaturesAndCommit(ins)
@@ -1111,7 +1273,8 @@ fn gen_header(rng: &mut Rng, chain: char) -> BlockHeader {
 		height: pick_u64(rng),
 		prev_hash: hash32(rng),
 		prev_root: hash32(rng),
-		timestamp: DateTime::<Utc>::from_timestamp(pick_ts(rng), 0).unwrap(),
+		// `pick_ts` stays inside chrono's range; the epoch otherwise
+		timestamp: DateTime::<Utc>::from_timestamp(pick_ts(rng), 0).unwrap_or_default(),
 		output_root: hash32(rng),
 		range_proof_root: hash32(rng),
 		kernel_root: hash32(rng),
@@ -1131,18 +1294,10 @@ fn gen_header(rng: &mut Rng, chain: char) -> BlockHeader {
 // sections
 
 fn consts(cx: &mut Ctx) {
-	let tmax = chrono::NaiveDate::MAX
-		.and_hms_opt(0, 0, 0)
-		.unwrap()
-		.and_utc()
-		.timestamp();
-	let tmin = chrono::NaiveDate::MIN
-		.and_hms_opt(0, 0, 0)
-		.unwrap()
-		.and_utc()
-		.timestamp();
-	cx.out.line("ser const ts_max", &tmax.to_string());
-	cx.out.line("ser const ts_min", &tmin.to_string());
+	if let (Some(hi), Some(lo)) = (chrono::NaiveDate::MAX.and_hms_opt(0, 0, 0), chrono::NaiveDate::MIN.and_hms_opt(0, 0, 0)) {
+		cx.out.line("ser const ts_max", &hi.and_utc().timestamp().to_string());
+		cx.out.line("ser const ts_min", &lo.and_utc().timestamp().to_string());
+	}
 	cx.out.line(
 		"ser const max_proof_size",
 		&grin_util::secp::constants::MAX_PROOF_SIZE.to_string(),
@@ -1161,29 +1316,37 @@ fn consts(cx: &mut Ctx) {
 fn prim_line(cx: &mut Ctx, kind: &str, bytes: &[u8]) {
 	let mut src = &bytes[..];
 	let mut rd = BinReader::new(&mut src, ProtocolVersion(1), DeserializationMode::default());
-	let parts: Vec<&str> = kind.split(':').collect();
-	let res: Result<String, ser::Error> = match parts[0] {
+	// `kind` is the harness' own text: `<name>` or `<name>:<number>`
+	let (name, arg) = match kind.split_once(':') {
+		Some((n, a)) => (n, a.parse::<u64>().unwrap_or(0)),
+		None => (kind, 0),
+	};
+	let res: Result<Result<String, ser::Error>, String> = catch(AssertUnwindSafe(|| match name {
 		"u8" => rd.read_u8().map(|x| x.to_string()),
 		"u16" => rd.read_u16().map(|x| x.to_string()),
 		"u32" => rd.read_u32().map(|x| x.to_string()),
 		"u64" => rd.read_u64().map(|x| x.to_string()),
 		"i64" => rd.read_i64().map(|x| x.to_string()),
 		"bytes" => rd.read_bytes_len_prefix().map(|x| hex(&x)),
-		"fixed" => rd.read_fixed_bytes(parts[1].parse().unwrap()).map(|x| hex(&x)),
-		"empty" => rd.read_empty_bytes(parts[1].parse().unwrap()).map(|_| "unit".to_string()),
-		"expect" => rd.expect_u8(parts[1].parse().unwrap()).map(|x| x.to_string()),
-		_ => unreachable!(),
-	};
+		"fixed" => rd.read_fixed_bytes(arg as usize).map(|x| hex(&x)),
+		"empty" => rd.read_empty_bytes(arg as usize).map(|_| "unit".to_string()),
+		_ => rd.expect_u8(arg as u8).map(|x| x.to_string()),
+	}));
 	let lhs = format!("ser prim {} {}", kind, hex(bytes));
 	match res {
-		Ok(s) => {
-			let consumed = bytes.len() - src.len();
+		Ok(Ok(s)) => {
+			let consumed = bytes.len().saturating_sub(src.len());
 			cx.out.line(&lhs, &format!("ok {} {}", s, consumed));
-			cx.stat(format!("prim {} ok", parts[0]));
+			cx.stat(format!("prim {} ok", name));
 		}
-		Err(e) => {
+		Ok(Err(e)) => {
 			cx.out.line(&lhs, &format!("err {}", err_name(&e)));
-			cx.stat(format!("prim {} err:{}", parts[0], err_name(&e)));
+			cx.stat(format!("prim {} err:{}", name, err_name(&e)));
+		}
+		Err(m) => {
+			cx.out.line(&lhs, "panic");
+			cx.oracle_fail(format!("primitive reader {} panicked ({}) on {}", kind, one_line(&m), hex(bytes)));
+			cx.stat(format!("prim {} panic", name));
 		}
 	}
 }
@@ -1225,6 +1388,23 @@ fn prims(cx: &mut Ctx) {
 	ok.extend_from_slice(&[1, 2, 3, 4]);
 	prim_line(cx, "bytes", &ok);
 	prim_line(cx, "bytes", &u64::MAX.to_be_bytes());
+	// the empty instances of the length-carrying primitives, on purpose
+	prim_line(cx, "bytes", &[0u8; 8]); // a length-prefixed byte string of length 0
+	prim_line(cx, "bytes", &[0, 0, 0, 0, 0, 0, 0, 0, 0xaa]); // … followed by something
+	prim_line(cx, "bytes", &[0, 0, 0, 0, 0, 0, 0, 1, 0xaa]); // length 1
+	prim_line(cx, "fixed:0", &[]);
+	prim_line(cx, "fixed:0", &[1, 2]);
+	prim_line(cx, "fixed:1", &[1, 2]);
+	prim_line(cx, "empty:0", &[]);
+	prim_line(cx, "empty:0", &[7]);
+	cx.corner("read_bytes_len_prefix:0-bytes");
+	cx.corner("read_bytes_len_prefix:0-bytes");
+	cx.corner("read_bytes_len_prefix:1-byte");
+	cx.corner("read_fixed_bytes:0-bytes");
+	cx.corner("read_fixed_bytes:0-bytes");
+	cx.corner("read_fixed_bytes:1-byte");
+	cx.corner("read_empty_bytes:0-bytes");
+	cx.corner("read_empty_bytes:0-bytes");
 }
 
 fn kernels(cx: &mut Ctx) {
@@ -1237,18 +1417,28 @@ fn kernels(cx: &mut Ctx) {
 		if is_nrd {
 			// NRD kernels are refused while the feature flag is off
 			for v in VERSIONS.iter() {
-				let b = enc_at(&k, *v).unwrap();
-				dec_case::<TxKernel>(cx, *v, false, 'A', &b, None, Expect::Any, "nrd-disabled");
+				set_env('A', true);
+				if let Some(b) = own_enc(cx, &k, *v) {
+					dec_case::<TxKernel>(cx, *v, false, 'A', &b, None, Expect::Any, "nrd-disabled");
+				}
 			}
 		}
 		for v in VERSIONS.iter() {
-			let b = enc_at(&k, *v).unwrap();
+			set_env('A', true);
+			let b = match own_enc(cx, &k, *v) {
+				Some(b) => b,
+				None => continue,
+			};
 			generic_mutations::<TxKernel>(cx, *v, true, 'A', &b, 12, 12);
 			// unknown feature tags
 			for _ in 0..3 {
-				let mut m = b.clone();
-				m[0] = cx.rng.range(4, 255) as u8;
-				dec_case::<TxKernel>(cx, *v, true, 'A', &m, None, Expect::Reject, "unknown-kernel-tag");
+				let t = cx.rng.range(4, 255) as u8;
+				match patched(&b, 0, &[t]) {
+					Some(m) => {
+						dec_case::<TxKernel>(cx, *v, true, 'A', &m, None, Expect::Reject, "unknown-kernel-tag");
+					}
+					None => layout_fail(cx, "TxKernel", &b, *v),
+				}
 			}
 			if *v == 1 {
 				// reserved bytes of the fixed-size v1 features must be zero
@@ -1259,18 +1449,25 @@ fn kernels(cx: &mut Ctx) {
 					KernelFeatures::NoRecentDuplicate { .. } => (9, 15),
 				};
 				for p in lo..hi {
-					let mut m = b.clone();
-					m[p] = if cx.rng.chance(1, 2) { 1 } else { cx.rng.range(1, 255) as u8 };
-					dec_case::<TxKernel>(cx, 1, true, 'A', &m, None, Expect::Reject, "reserved-bytes");
+					let nz = if cx.rng.chance(1, 2) { 1 } else { cx.rng.range(1, 255) as u8 };
+					match patched(&b, p, &[nz]) {
+						Some(m) => {
+							dec_case::<TxKernel>(cx, 1, true, 'A', &m, None, Expect::Reject, "reserved-bytes");
+						}
+						None => layout_fail(cx, "TxKernel", &b, 1),
+					}
 				}
 			}
 			if is_nrd {
 				// relative height outside 1..=WEEK_HEIGHT
 				let off = if *v == 1 { 15 } else { 9 };
 				for rh in [0u16, 10081, 65535, 20000].iter() {
-					let mut m = b.clone();
-					m[off..off + 2].copy_from_slice(&rh.to_be_bytes());
-					dec_case::<TxKernel>(cx, *v, true, 'A', &m, None, Expect::Reject, "nrd-height-range");
+					match patched(&b, off, &rh.to_be_bytes()) {
+						Some(m) => {
+							dec_case::<TxKernel>(cx, *v, true, 'A', &m, None, Expect::Reject, "nrd-height-range");
+						}
+						None => layout_fail(cx, "TxKernel", &b, *v),
+					}
 				}
 			}
 		}
@@ -1295,30 +1492,39 @@ fn outputs_inputs(cx: &mut Ctx) {
 		roundtrip_all(cx, 'A', false, &inp.features, true);
 		let sid = ShortId::from_bytes(&cx.rng.bytes(6));
 		roundtrip_all(cx, 'A', false, &sid, true);
-		let b = enc_at(&o, 1).unwrap();
+		set_env('A', false);
+		let (b, bi) = match (own_enc(cx, &o, 1), own_enc(cx, &inp, 2)) {
+			(Some(b), Some(bi)) => (b, bi),
+			_ => continue,
+		};
 		generic_mutations::<Output>(cx, 1, false, 'A', &b, 6, 10);
-		let bi = enc_at(&inp, 2).unwrap();
 		generic_mutations::<Input>(cx, 2, false, 'A', &bi, 34, 6);
 		// unknown output feature tags
 		for _ in 0..3 {
 			let t = cx.rng.range(2, 255) as u8;
-			let mut m = b.clone();
-			m[0] = t;
-			dec_case::<Output>(cx, 1, false, 'A', &m, None, Expect::Reject, "unknown-output-tag");
-			let mut m = bi.clone();
-			m[0] = t;
-			dec_case::<Input>(cx, 3, false, 'A', &m, None, Expect::Reject, "unknown-output-tag");
-			dec_case::<OutputIdentifier>(cx, 3, false, 'A', &m, None, Expect::Reject, "unknown-output-tag");
+			match (patched(&b, 0, &[t]), patched(&bi, 0, &[t])) {
+				(Some(m), Some(mi)) => {
+					dec_case::<Output>(cx, 1, false, 'A', &m, None, Expect::Reject, "unknown-output-tag");
+					dec_case::<Input>(cx, 3, false, 'A', &mi, None, Expect::Reject, "unknown-output-tag");
+					dec_case::<OutputIdentifier>(cx, 3, false, 'A', &mi, None, Expect::Reject, "unknown-output-tag");
+				}
+				_ => layout_fail(cx, "Output / Input", &b, 1),
+			}
 			dec_case::<OutputFeatures>(cx, 1, false, 'A', &[t], None, Expect::Reject, "unknown-output-tag");
 		}
 		// range proof length field (the decoder reads min(len, 675) and always yields plen = 675)
 		for l in [0u64, 1, 674, 676, 1000, 100_001, u64::MAX].iter() {
-			let mut m = b[..34].to_vec();
-			m.extend_from_slice(&l.to_be_bytes());
 			let take = std::cmp::min(*l, 675) as usize;
-			m.extend_from_slice(&b[42..42 + take]);
-			dec_case::<Output>(cx, 1, false, 'A', &m, None, Expect::Any, "proof-len-field");
-			dec_case::<RangeProof>(cx, 1, false, 'A', &m[34..], None, Expect::Any, "proof-len-field");
+			match (b.get(..34), b.get(42..42 + take)) {
+				(Some(head), Some(body)) => {
+					let mut m = head.to_vec();
+					m.extend_from_slice(&l.to_be_bytes());
+					m.extend_from_slice(body);
+					dec_case::<Output>(cx, 1, false, 'A', &m, None, Expect::Any, "proof-len-field");
+					dec_case::<RangeProof>(cx, 1, false, 'A', m.get(34..).unwrap_or(&[]), None, Expect::Any, "proof-len-field");
+				}
+				_ => layout_fail(cx, "Output", &b, 1),
+			}
 		}
 	}
 	// in-memory range proofs with plen < 675 (never produced by a decoder): encoder side + what comes back
@@ -1362,25 +1568,32 @@ impl Parts {
 	}
 }
 
-fn body_parts(b: &TransactionBody, v: u32, prefix: Vec<u8>) -> Parts {
+/// the encodings of a list of honest entries; an entry that cannot be written is reported, and `None`
+fn own_encs<T: Ty>(cx: &mut Ctx, l: &[T], v: u32) -> Option<Vec<Vec<u8>>> {
+	let mut out = Vec::with_capacity(l.len());
+	for x in l {
+		out.push(own_enc(cx, x, v)?);
+	}
+	Some(out)
+}
+
+fn body_parts(cx: &mut Ctx, b: &TransactionBody, v: u32, prefix: Vec<u8>) -> Option<Parts> {
 	let ins: Vec<Vec<u8>> = if v >= 3 {
 		let cw: Vec<CommitWrapper> = (&b.inputs).into();
-		cw.iter().map(|c| enc_at(c, v).unwrap()).collect()
+		own_encs(cx, &cw, v)?
 	} else {
 		match &b.inputs {
-			Inputs::FeaturesAndCommit(l) => l.iter().map(|c| enc_at(c, v).unwrap()).collect(),
+			Inputs::FeaturesAndCommit(l) => own_encs(cx, l, v)?,
 			Inputs::CommitOnly(_) => vec![],
 		}
 	};
-	Parts {
+	let outs = own_encs(cx, &b.outputs, v)?;
+	let kers = own_encs(cx, &b.kernels, v)?;
+	Some(Parts {
 		prefix,
 		counts: [ins.len() as u64, b.outputs.len() as u64, b.kernels.len() as u64],
-		secs: [
-			ins,
-			b.outputs.iter().map(|o| enc_at(o, v).unwrap()).collect(),
-			b.kernels.iter().map(|k| enc_at(k, v).unwrap()).collect(),
-		],
-	}
+		secs: [ins, outs, kers],
+	})
 }
 
 /// structural perturbations touching the canonical-form rules of a body-like encoding
@@ -1459,6 +1672,22 @@ fn bodies(cx: &mut Ctx) {
 		let commit_only = i % 3 == 2;
 		let body = gen_body(&mut cx.rng, ni, no, nk, commit_only, false, true);
 		let tot = ni + no + nk;
+		// the corners, counted: nothing at all; no inputs; exactly one kernel; one of each
+		if tot == 0 {
+			cx.corner("TransactionBody:0-inputs-0-outputs-0-kernels");
+			cx.corner("Block:empty-body");
+		}
+		if ni == 0 && tot > 0 {
+			cx.corner("TransactionBody:0-inputs");
+			cx.corner("Block:0-inputs");
+		}
+		if nk == 1 {
+			cx.corner("TransactionBody:1-kernel");
+			cx.corner("Block:1-kernel");
+		}
+		if (ni, no, nk) == (1, 1, 1) {
+			cx.corner("TransactionBody:1-input-1-output-1-kernel");
+		}
 		cx.stat(format!(
 			"body entries {} inputs-variant {}",
 			match tot {
@@ -1479,6 +1708,12 @@ fn bodies(cx: &mut Ctx) {
 		roundtrip_all(cx, chain, true, &blk, with_enc && i % 2 == 0);
 		// transaction: no coinbase, within tx weight, distinct commitments
 		let (ti, to, tk) = if i % 8 == 5 { (16, 8, 14) } else { (ni.min(30), no, nk.max(1)) };
+		if ti == 0 {
+			cx.corner(if to == 0 { "Transaction:0-inputs-0-outputs-1-kernel" } else { "Transaction:0-inputs" });
+		}
+		if tk == 1 {
+			cx.corner("Transaction:1-kernel");
+		}
 		let tbody = gen_body(&mut cx.rng, ti, to, tk, commit_only, true, true);
 		let tx = Transaction {
 			offset: BlindingFactor::from_slice(&cx.rng.bytes(32)),
@@ -1491,12 +1726,20 @@ fn bodies(cx: &mut Ctx) {
 				continue;
 			}
 			set_env(chain, true);
-			let p = body_parts(&body, *v, vec![]);
+			let hb = match own_enc(cx, &blk.header, *v) {
+				Some(hb) => hb,
+				None => continue,
+			};
+			let (p, pb, pt) = match (
+				body_parts(cx, &body, *v, vec![]),
+				body_parts(cx, &body, *v, hb),
+				body_parts(cx, &tx.body, *v, tx.offset.as_ref().to_vec()),
+			) {
+				(Some(p), Some(pb), Some(pt)) => (p, pb, pt),
+				_ => continue,
+			};
 			parts_mutations::<TransactionBody>(cx, *v, true, chain, &p, true);
-			let hb = enc_at(&blk.header, *v).unwrap();
-			let pb = body_parts(&body, *v, hb);
 			parts_mutations::<Block>(cx, *v, true, chain, &pb, true);
-			let pt = body_parts(&tx.body, *v, tx.offset.as_ref().to_vec());
 			parts_mutations::<Transaction>(cx, *v, true, chain, &pt, true);
 			let bb = p.bytes();
 			generic_mutations::<TransactionBody>(cx, *v, true, chain, &bb, 8, 12);
@@ -1510,7 +1753,7 @@ fn bodies(cx: &mut Ctx) {
 			let mut o = gen_output(&mut cx.rng, true);
 			o.identifier.features = OutputFeatures::Coinbase;
 			t2.body.outputs.push(o);
-			t2.body.outputs.sort_unstable();
+			sort_by_impl(&mut t2.body.outputs, "t2.body.outputs");
 			for v in [2u32, 3].iter() {
 				if let Ok(b) = enc_at(&t2, *v) {
 					dec_case::<Transaction>(cx, *v, true, chain, &b, None, Expect::Any, "tx-coinbase-output");
@@ -1518,7 +1761,7 @@ fn bodies(cx: &mut Ctx) {
 			}
 			let mut t3 = tx.clone();
 			t3.body.kernels.push(gen_kernel(&mut cx.rng, 1));
-			t3.body.kernels.sort_unstable();
+			sort_by_impl(&mut t3.body.kernels, "t3.body.kernels");
 			for v in [1u32, 3].iter() {
 				if let Ok(b) = enc_at(&t3, *v) {
 					dec_case::<Transaction>(cx, *v, true, chain, &b, None, Expect::Any, "tx-coinbase-kernel");
@@ -1533,7 +1776,7 @@ fn bodies(cx: &mut Ctx) {
 					Inputs::CommitOnly(l) => l.iter().map(|c| Input::new(OutputFeatures::Plain, c.commitment())).collect(),
 				};
 				ins.push(Input::new(OutputFeatures::Plain, c));
-				ins.sort_unstable();
+				sort_by_impl(&mut ins, "ins");
 				t4.body.inputs = Inputs::FeaturesAndCommit(ins);
 				for v in [2u32, 3].iter() {
 					if let Ok(b) = enc_at(&t4, *v) {
@@ -1548,7 +1791,7 @@ fn bodies(cx: &mut Ctx) {
 			k2.excess = k1.excess;
 			t5.body.kernels.push(k1);
 			t5.body.kernels.push(k2);
-			t5.body.kernels.sort_unstable();
+			sort_by_impl(&mut t5.body.kernels, "t5.body.kernels");
 			for v in [1u32, 2].iter() {
 				if let Ok(b) = enc_at(&t5, *v) {
 					dec_case::<Transaction>(cx, *v, true, chain, &b, None, Expect::Any, "tx-nrd-duplicate");
@@ -1563,9 +1806,18 @@ fn bodies(cx: &mut Ctx) {
 		set_env('A', false);
 		let empty = TransactionBody::empty();
 		for v in [1u32, 2, 3].iter() {
-			let b = enc_at(&empty, *v).unwrap();
-			let d: TransactionBody =
-				ser::deserialize(&mut &b[..], ProtocolVersion(*v), DeserializationMode::default()).unwrap();
+			let b = match own_enc(cx, &empty, *v) {
+				Some(b) => b,
+				None => continue,
+			};
+			cx.corner("TransactionBody:empty()");
+			let d: TransactionBody = match dec_full::<TransactionBody>(&b, *v) {
+				Ok((d, _)) => d,
+				Err(e) => {
+					cx.oracle_fail(format!("TransactionBody does not decode from its own encoding: {} ({}) [version {}]", hex(&b), e, v));
+					continue;
+				}
+			};
 			if d != empty {
 				cx.out.raw(&format!(
 					"#KNOWN-PROBE C10 empty-inputs-variant: TransactionBody::empty() (Inputs::CommitOnly([])) written and read at v{} comes back as Inputs::{} and `==` is false (same, empty, commitment set)",
@@ -1580,14 +1832,18 @@ fn bodies(cx: &mut Ctx) {
 	for (ni, no, nk, what) in [(19usize, 10usize, 7usize, "w250"), (20, 10, 7, "w251"), (16, 10, 0, "w226"), (17, 10, 0, "w227")].iter() {
 		let body = gen_body(&mut cx.rng, *ni, *no, *nk, false, true, true);
 		for v in [1u32, 3].iter() {
-			let b = enc_at(&body, *v).unwrap();
-			dec_case::<TransactionBody>(cx, *v, true, 'A', &b, None, Expect::Any, what);
+			set_env('A', true);
+			if let Some(b) = own_enc(cx, &body, *v) {
+				dec_case::<TransactionBody>(cx, *v, true, 'A', &b, None, Expect::Any, what);
+			}
 			let tx = Transaction {
 				offset: BlindingFactor::from_slice(&[7u8; 32]),
 				body: body.clone(),
 			};
-			let tb = enc_at(&tx, *v).unwrap();
-			dec_case::<Transaction>(cx, *v, true, 'A', &tb, None, Expect::Any, what);
+			set_env('A', true);
+			if let Some(tb) = own_enc(cx, &tx, *v) {
+				dec_case::<Transaction>(cx, *v, true, 'A', &tb, None, Expect::Any, what);
+			}
 		}
 	}
 	weight_boundary(cx);
@@ -1617,7 +1873,7 @@ fn weight_boundary(cx: &mut Ctx) {
 			let w = (*ni + 21 * *no + 3 * *nk) as u64;
 			let what = ["weight-max-1", "weight-max", "weight-max+1"][k];
 			if w + 1 != max + k as u64 {
-				cx.out.raw(&format!("#ORACLE-FAIL C10 weight boundary composition {}/{}/{} = {} does not sit at max_block_weight {} {:+}", ni, no, nk, w, max, k as i64 - 1));
+				cx.oracle_fail(format!("weight boundary composition {}/{}/{} = {} does not sit at max_block_weight {} {:+}", ni, no, nk, w, max, k as i64 - 1));
 				continue;
 			}
 			// Mainnet encodings are 1.4 MB each: the quick tier keeps the limit itself and one above,
@@ -1642,17 +1898,20 @@ fn weight_boundary(cx: &mut Ctx) {
 			for v in versions.iter() {
 				set_env(*chain, true);
 				let exp = if k < 2 { Expect::Valid } else { Expect::Reject };
-				let bb = enc_at(&body, *v).unwrap();
-				dec_case::<TransactionBody>(cx, *v, true, *chain, &bb, Some(&body), exp, what);
+				if let Some(bb) = own_enc(cx, &body, *v) {
+					dec_case::<TransactionBody>(cx, *v, true, *chain, &bb, Some(&body), exp, what);
+				}
 				if *chain == 'A' || cx.thorough || *v == 3 {
 					set_env(*chain, true);
-					let kb = enc_at(&blk, *v).unwrap();
-					dec_case::<Block>(cx, *v, true, *chain, &kb, Some(&blk), exp, what);
+					if let Some(kb) = own_enc(cx, &blk, *v) {
+						dec_case::<Block>(cx, *v, true, *chain, &kb, Some(&blk), exp, what);
+					}
 				}
 				if *v >= 3 && (*chain == 'A' || cx.thorough) {
 					set_env(*chain, true);
-					let cb = enc_at(&co_body, *v).unwrap();
-					dec_case::<TransactionBody>(cx, *v, true, *chain, &cb, Some(&co_body), exp, what);
+					if let Some(cb) = own_enc(cx, &co_body, *v) {
+						dec_case::<TransactionBody>(cx, *v, true, *chain, &cb, Some(&co_body), exp, what);
+					}
 				}
 			}
 			if *chain == 'A' {
@@ -1683,9 +1942,12 @@ fn proofs_headers(cx: &mut Ctx) {
 						// padding bits above proofsize*edge_bits must be zero
 						let used = eb as usize * ps;
 						for bit in used..plen * 8 {
-							let mut m = b.clone();
-							m[1 + bit / 8] |= 1 << (bit % 8);
-							dec_case::<Proof>(cx, 1, false, *chain, &m, None, Expect::Reject, "padding-bits");
+							match b.get(1 + bit / 8).and_then(|x| patched(&b, 1 + bit / 8, &[*x | (1 << (bit % 8))])) {
+								Some(m) => {
+									dec_case::<Proof>(cx, 1, false, *chain, &m, None, Expect::Reject, "padding-bits");
+								}
+								None => layout_fail(cx, "Proof", &b, 1),
+							}
 						}
 						generic_mutations::<Proof>(cx, 1, false, *chain, &b, 3, 3);
 					}
@@ -1694,13 +1956,18 @@ fn proofs_headers(cx: &mut Ctx) {
 		}
 		// edge_bits 0 and 64..=255
 		set_env(*chain, false);
-		let good = enc_at(&gen_proof(&mut cx.rng, 31, ps), 1).unwrap();
-		for eb in (0u16..1).chain(64..=255) {
-			let mut m = good.clone();
-			m[0] = eb as u8;
-			// give it enough bytes whatever it would want to read
-			m.extend_from_slice(&vec![0u8; 2000]);
-			dec_case::<Proof>(cx, 1, false, *chain, &m, None, Expect::Reject, "edge-bits-range");
+		let p31 = gen_proof(&mut cx.rng, 31, ps);
+		if let Some(good) = own_enc(cx, &p31, 1) {
+			for eb in (0u16..1).chain(64..=255) {
+				match patched(&good, 0, &[eb as u8]) {
+					Some(mut m) => {
+						// give it enough bytes whatever it would want to read
+						m.extend_from_slice(&vec![0u8; 2000]);
+						dec_case::<Proof>(cx, 1, false, *chain, &m, None, Expect::Reject, "edge-bits-range");
+					}
+					None => layout_fail(cx, "Proof", &good, 1),
+				}
+			}
 		}
 		let n = if cx.thorough { 300 } else { 50 };
 		for i in 0..n {
@@ -1708,25 +1975,31 @@ fn proofs_headers(cx: &mut Ctx) {
 			let h = gen_header(&mut cx.rng, *chain);
 			roundtrip_all(cx, *chain, false, &h, true);
 			roundtrip_all(cx, *chain, false, &h.pow, i < 10);
-			let b = enc_at(&h, 1).unwrap();
-			generic_mutations::<BlockHeader>(cx, 1, false, *chain, &b, 10, 16);
-			// timestamp out of chrono's date range
-			for ts in [TS_MAX + 1, TS_MIN - 1, i64::MAX, i64::MIN, TS_MAX + 86400, TS_MAX, TS_MIN].iter() {
-				let mut m = b.clone();
-				m[10..18].copy_from_slice(&ts.to_be_bytes());
-				let exp = if *ts > TS_MAX || *ts < TS_MIN { Expect::Reject } else { Expect::Any };
-				dec_case::<BlockHeader>(cx, 2, false, *chain, &m, None, exp, "timestamp-range");
+			set_env(*chain, false);
+			if let Some(b) = own_enc(cx, &h, 1) {
+				generic_mutations::<BlockHeader>(cx, 1, false, *chain, &b, 10, 16);
+				// timestamp out of chrono's date range
+				for ts in [TS_MAX + 1, TS_MIN - 1, i64::MAX, i64::MIN, TS_MAX + 86400, TS_MAX, TS_MIN].iter() {
+					let exp = if *ts > TS_MAX || *ts < TS_MIN { Expect::Reject } else { Expect::Any };
+					match patched(&b, 10, &ts.to_be_bytes()) {
+						Some(m) => {
+							dec_case::<BlockHeader>(cx, 2, false, *chain, &m, None, exp, "timestamp-range");
+						}
+						None => layout_fail(cx, "BlockHeader", &b, 1),
+					}
+				}
 			}
 			let tip = Tip {
 				height: pick_u64(&mut cx.rng),
-				last_block_h: h.hash(),
+				last_block_h: catch(AssertUnwindSafe(|| h.hash())).unwrap_or_else(|_| hash32(&mut cx.rng)),
 				prev_block_h: h.prev_hash,
 				total_difficulty: h.pow.total_difficulty,
 			};
 			roundtrip_all(cx, *chain, false, &tip, true);
 			if i < 10 {
-				let tb = enc_at(&tip, 1).unwrap();
-				generic_mutations::<Tip>(cx, 1, false, *chain, &tb, 80, 4);
+				if let Some(tb) = own_enc(cx, &tip, 1) {
+					generic_mutations::<Tip>(cx, 1, false, *chain, &tb, 80, 4);
+				}
 			}
 		}
 	}
@@ -1748,36 +2021,43 @@ fn compact_blocks(cx: &mut Ctx) {
 		let mut outs: Vec<Output> = (0..no).map(|_| gen_output(&mut cx.rng, true)).collect();
 		let mut kers: Vec<TxKernel> = (0..nk).map(|j| gen_kernel(&mut cx.rng, if j % 2 == 0 { 1 } else { j as u64 })).collect();
 		let mut ids: Vec<ShortId> = (0..nid).map(|_| ShortId::from_bytes(&cx.rng.bytes(6))).collect();
-		outs.sort_unstable();
-		kers.sort_unstable();
-		ids.sort_unstable();
+		sort_by_impl(&mut outs, "outs");
+		sort_by_impl(&mut kers, "kers");
+		sort_by_impl(&mut ids, "ids");
 		ids.dedup();
 		let nonce = pick_u64(&mut cx.rng);
 		for v in [1u32, 2, 1000].iter() {
 			set_env(chain, true);
 			// `CompactBlock.body` is private: build the encoding from its parts and read it
-			let mut prefix = enc_at(&h, *v).unwrap();
-			prefix.extend_from_slice(&nonce.to_be_bytes());
-			let p = Parts {
-				prefix,
-				counts: [outs.len() as u64, kers.len() as u64, ids.len() as u64],
-				secs: [
-					outs.iter().map(|o| enc_at(o, *v).unwrap()).collect(),
-					kers.iter().map(|k| enc_at(k, *v).unwrap()).collect(),
-					ids.iter().map(|k| enc_at(k, *v).unwrap()).collect(),
-				],
+			let parts = (own_enc(cx, &h, *v), own_encs(cx, &outs, *v), own_encs(cx, &kers, *v), own_encs(cx, &ids, *v));
+			let p = match parts {
+				(Some(mut prefix), Some(eo), Some(ek), Some(ei)) => {
+					prefix.extend_from_slice(&nonce.to_be_bytes());
+					Parts {
+						prefix,
+						counts: [outs.len() as u64, kers.len() as u64, ids.len() as u64],
+						secs: [eo, ek, ei],
+					}
+				}
+				_ => continue,
 			};
 			let bytes = p.bytes();
+			if no == 0 && nk == 0 && ids.is_empty() {
+				cx.corner("CompactBlock:0-outputs-0-kernels-0-ids");
+			}
+			if no == 1 && nk == 1 && ids.is_empty() {
+				cx.corner("CompactBlock:1-output-1-kernel-0-ids");
+			}
 			if let Some(cb) = dec_case::<CompactBlock>(cx, *v, true, chain, &bytes, None, Expect::Any, "valid") {
 				// now we own a value: full round trip + hash = header hash under every version
-				if cb.hash() != h.hash() {
-					cx.out.raw(&format!("#ORACLE-FAIL C10 CompactBlock v{}: hash is not the header hash: {}", v, hex(&bytes)));
+				if hash_of(&cb).ok().flatten() != hash_of(&h).ok().flatten() {
+					cx.oracle_fail(format!("CompactBlock hash is not the header hash: {} [version {}]", shown(&bytes), v));
 				}
 				if *v == 1 {
 					roundtrip_all(cx, chain, true, &cb, no <= 1 && nid <= 5);
 				}
 			} else {
-				cx.out.raw(&format!("#ORACLE-FAIL C10 CompactBlock v{}: a sorted duplicate-free compact block is refused: {}", v, hex(&bytes)));
+				cx.oracle_fail(format!("CompactBlock does not decode from its own encoding (header, nonce, counts, sorted duplicate-free outputs / kernels / short ids): {} [version {}]", shown(&bytes), v));
 			}
 			parts_mutations::<CompactBlock>(cx, *v, true, chain, &p, false);
 			generic_mutations::<CompactBlock>(cx, *v, true, chain, &bytes, 6, 10);
@@ -1788,21 +2068,134 @@ fn compact_blocks(cx: &mut Ctx) {
 // ---------------------------------------------------------------------------------------------
 // MMR segments (core/src/core/pmmr/segment.rs, chain/src/txhashset/bitmap_accumulator.rs)
 
-fn proof_hashes(p: &SegmentProof) -> Vec<Hash> {
-	// SegmentProof has no accessor for its hashes: go through its serialisation
-	let bytes = ser::ser_vec(p, ProtocolVersion(1)).unwrap();
+/// The hashes of a `SegmentProof`. It has no accessor for them: go through its own serialisation
+/// (count, then 32 bytes each). `None`: its writer failed or wrote something else (the callers
+/// report that; nothing is indexed blindly).
+fn proof_hashes(p: &SegmentProof) -> Option<Vec<Hash>> {
+	let bytes = enc_at(p, 1).ok()?;
 	let mut n8 = [0u8; 8];
-	n8.copy_from_slice(&bytes[0..8]);
+	n8.copy_from_slice(bytes.get(0..8)?);
 	let n = u64::from_be_bytes(n8) as usize;
-	(0..n).map(|i| Hash::from_vec(&bytes[8 + 32 * i..8 + 32 * (i + 1)])).collect()
+	if n != p.size() || bytes.len() != 8 + 32 * n {
+		return None;
+	}
+	(0..n).map(|i| bytes.get(8 + 32 * i..8 + 32 * (i + 1)).map(Hash::from_vec)).collect()
 }
 
-fn mk_proof(hs: &[Hash]) -> SegmentProof {
+/// tokens of the proof's hashes, `?` if they cannot be had (see `UNDESCRIBABLE`)
+fn proof_tokens_of(p: &SegmentProof) -> String {
+	match proof_hashes(p) {
+		Some(hs) => hashes_tokens(&hs),
+		None => UNDESCRIBABLE.to_string(),
+	}
+}
+
+/// the encoding a `SegmentProof` with these hashes has: count, then the hashes
+fn proof_bytes(hs: &[Hash]) -> Vec<u8> {
 	let mut bytes = (hs.len() as u64).to_be_bytes().to_vec();
 	for h in hs {
 		bytes.extend_from_slice(h.as_bytes());
 	}
-	ser::deserialize(&mut &bytes[..], ProtocolVersion(1), DeserializationMode::default()).unwrap()
+	bytes
+}
+
+/// A `SegmentProof` with the given hashes. Its field is private and it has no constructor, so the only
+/// way to one with chosen hashes is its own reader — which is exactly what is under test: the result
+/// of the decode is handled, never unwrapped.
+fn mk_proof(hs: &[Hash]) -> Result<SegmentProof, String> {
+	dec_full::<SegmentProof>(&proof_bytes(hs), 1).map(|(p, _)| p)
+}
+
+thread_local! {
+	/// Honest proofs by size, made by `SegmentProof::generate` (through `Segment::from_pmmr` over
+	/// in-memory MMRs) — not by the decoder. Filled by `honest_pool`.
+	static HONEST_PROOFS: std::cell::RefCell<BTreeMap<usize, Vec<SegmentProof>>> = std::cell::RefCell::new(BTreeMap::new());
+}
+
+/// An in-memory MMR of `n` generated leaves and every honest segment of heights `0..=max_h` over it,
+/// as `Segment::from_pmmr` produces them. A whole MMR that fits into one segment (idx 0,
+/// n <= 2^height) comes with an EMPTY Merkle proof.
+fn honest_segments_of<T>(cx: &mut Ctx, n: u64, max_h: u8) -> Vec<Segment<T>>
+where
+	T: Item + PMMRable<E = T> + std::fmt::Debug,
+{
+	let mut ba = VecBackend::<T>::new();
+	let mut size = 0u64;
+	for i in 0..n {
+		let e = T::gen(&mut cx.rng, i as usize);
+		let pushed = catch(AssertUnwindSafe(|| {
+			let mut p = PMMR::at(&mut ba, size);
+			p.push(&e).map(|_| p.size)
+		}));
+		match pushed {
+			Ok(Ok(sz)) => size = sz,
+			other => {
+				cx.stat(format!("honest {} MMR push failed ({})", T::SEG_NAME, if other.is_ok() { "error" } else { "panic" }));
+				return vec![];
+			}
+		}
+	}
+	let mut out = vec![];
+	for h in 0..=max_h {
+		let count = (n + (1u64 << h) - 1) >> h;
+		for idx in 0..count {
+			let id = SegmentIdentifier { height: h, idx };
+			let r = catch(AssertUnwindSafe(|| {
+				let mmr = ReadonlyPMMR::at(&ba, size);
+				Segment::<T>::from_pmmr(id, &mmr, false)
+			}));
+			match r {
+				Ok(Ok(s)) => out.push(s),
+				Ok(Err(e)) => cx.stat(format!("honest {} from_pmmr error {:?}", T::SEG_NAME, e)),
+				Err(_) => cx.stat(format!("honest {} from_pmmr panic", T::SEG_NAME)),
+			}
+		}
+	}
+	out
+}
+
+/// fill `HONEST_PROOFS` (once per run): proofs of 0, 1, 2, … hashes that no decoder had a hand in
+fn honest_pool(cx: &mut Ctx) {
+	if HONEST_PROOFS.with(|p| !p.borrow().is_empty()) {
+		return;
+	}
+	for n in [1u64, 2, 3, 4, 5, 7, 8, 11, 16, 23, 32, 47, 64, 95, 128, 255, 511, 1023].iter() {
+		for s in honest_segments_of::<OutputIdentifier>(cx, *n, if *n <= 16 { 4 } else { 0 }) {
+			let (_, _, _, _, _, pf) = s.parts();
+			HONEST_PROOFS.with(|p| {
+				let mut p = p.borrow_mut();
+				let e = p.entry(pf.size()).or_insert_with(Vec::new);
+				if e.len() < 6 && !e.contains(&pf) {
+					e.push(pf);
+				}
+			});
+		}
+	}
+	let sizes: Vec<String> = HONEST_PROOFS.with(|p| p.borrow().iter().map(|(k, v)| format!("{}:{}", k, v.len())).collect());
+	cx.out.raw(&format!("#STAT honest SegmentProof pool (from Segment::from_pmmr, size:count) = {}", sizes.join(" ")));
+	if HONEST_PROOFS.with(|p| p.borrow().get(&0).is_none()) {
+		cx.stat("honest SegmentProof pool has no empty proof".to_string());
+	}
+}
+
+/// A proof with these hashes through the reader; when the reader refuses its own format that is an
+/// oracle failure (printed with the encoding) and an honest proof **of the same size** from the pool
+/// stands in, so that the objects containing it are still built and checked. The hashes of the
+/// returned proof are `proof_hashes(&p)`, not necessarily `hs`.
+fn proof_for(cx: &mut Ctx, hs: &[Hash]) -> Option<SegmentProof> {
+	match mk_proof(hs) {
+		Ok(p) => Some(p),
+		Err(e) => {
+			cx.oracle_fail(format!("SegmentProof does not decode from its own encoding: {} ({}) [version 1]", hex(&proof_bytes(hs)), e));
+			honest_pool(cx);
+			let k = cx.rng.below(6) as usize;
+			let alt = HONEST_PROOFS.with(|p| p.borrow().get(&hs.len()).and_then(|v| v.get(k % v.len().max(1)).cloned()));
+			if alt.is_none() {
+				cx.stat(format!("skipped: no SegmentProof of {} hashes can be constructed", hs.len()));
+			}
+			alt
+		}
+	}
 }
 
 fn hashes_tokens(hs: &[Hash]) -> String {
@@ -1836,7 +2229,7 @@ impl Ty for SegmentProof {
 		self == d
 	}
 	fn describe(&self) -> String {
-		hashes_tokens(&proof_hashes(self))
+		proof_tokens_of(self)
 	}
 }
 
@@ -1909,7 +2302,7 @@ fn seg_tokens<T: Item>(s: &Segment<T>) -> String {
 		out.push_str(&d.tok());
 	}
 	out.push(' ');
-	out.push_str(&hashes_tokens(&proof_hashes(&pf)));
+	out.push_str(&proof_tokens_of(&pf));
 	out
 }
 
@@ -2059,7 +2452,7 @@ fn bitmap_blocks(s: &BitmapSegment) -> Option<(SegmentIdentifier, Vec<BlockBits>
 		}
 		blocks.push(BlockBits(bits));
 	}
-	Some((id, blocks, proof_hashes(&proof)))
+	Some((id, blocks, proof_hashes(&proof)?))
 }
 
 fn bitmap_tokens(s: &BitmapSegment) -> String {
@@ -2073,7 +2466,8 @@ fn bitmap_tokens(s: &BitmapSegment) -> String {
 			out.push_str(&hashes_tokens(&pf));
 			out
 		}
-		None => "invalid".to_string(),
+		// `into_segment` refused / panicked or the proof's writer failed: no description the model could use
+		None => UNDESCRIBABLE.to_string(),
 	}
 }
 
@@ -2140,9 +2534,8 @@ impl Ty for BitmapSegment {
 	}
 	fn known_noncanon(input: &[u8], canon: &[u8], x: &Self, v: u32) -> Vec<String> {
 		// same value, other block encoding (mode / index order / repeated index)
-		let y: Result<BitmapSegment, _> = ser::deserialize(&mut &canon[..], ProtocolVersion(v), DeserializationMode::default());
-		match y {
-			Ok(y) if &y == x && bitmap_only_blocks_differ(input, canon, 0) => vec!["bitmapblock-noncanonical-accepted".to_string()],
+		match dec_full::<BitmapSegment>(canon, v) {
+			Ok((y, _)) if &y == x && bitmap_only_blocks_differ(input, canon, 0) => vec!["bitmapblock-noncanonical-accepted".to_string()],
 			_ => vec![],
 		}
 	}
@@ -2160,9 +2553,8 @@ impl Ty for OutputBitmapSegmentResponse {
 		format!("{} {} {}", hex(self.block_hash.as_bytes()), bitmap_tokens(&self.segment), hex(self.output_root.as_bytes()))
 	}
 	fn known_noncanon(input: &[u8], canon: &[u8], x: &Self, v: u32) -> Vec<String> {
-		let y: Result<OutputBitmapSegmentResponse, _> = ser::deserialize(&mut &canon[..], ProtocolVersion(v), DeserializationMode::default());
-		match y {
-			Ok(y) if y.segment == x.segment && bitmap_only_blocks_differ(input, canon, 32) => vec!["bitmapblock-noncanonical-accepted".to_string()],
+		match dec_full::<OutputBitmapSegmentResponse>(canon, v) {
+			Ok((y, _)) if y.segment == x.segment && bitmap_only_blocks_differ(input, canon, 32) => vec!["bitmapblock-noncanonical-accepted".to_string()],
 			_ => vec![],
 		}
 	}
@@ -2585,14 +2977,16 @@ fn gen_seg_id(rng: &mut Rng) -> SegmentIdentifier {
 	}
 }
 
-fn gen_segment<T: Item>(rng: &mut Rng, nh: usize, nl: usize, np: usize, style: u64) -> Segment<T> {
-	let id = gen_seg_id(rng);
-	let hp = gen_positions(rng, nh, style);
-	let hs: Vec<Hash> = (0..nh).map(|_| hash32(rng)).collect();
-	let lp = gen_positions(rng, nl, style / 4);
-	let ld: Vec<T> = (0..nl).map(|i| T::gen(rng, i)).collect();
-	let pf: Vec<Hash> = (0..np).map(|_| hash32(rng)).collect();
-	Segment::from_parts(id, hp, hs, lp, ld, mk_proof(&pf))
+/// `None` only when no proof of `np` hashes can be constructed at all (reported by `proof_for`)
+fn gen_segment<T: Item>(cx: &mut Ctx, nh: usize, nl: usize, np: usize, style: u64) -> Option<Segment<T>> {
+	let id = gen_seg_id(&mut cx.rng);
+	let hp = gen_positions(&mut cx.rng, nh, style);
+	let hs: Vec<Hash> = (0..nh).map(|_| hash32(&mut cx.rng)).collect();
+	let lp = gen_positions(&mut cx.rng, nl, style / 4);
+	let ld: Vec<T> = (0..nl).map(|i| T::gen(&mut cx.rng, i)).collect();
+	let pf: Vec<Hash> = (0..np).map(|_| hash32(&mut cx.rng)).collect();
+	let proof = proof_for(cx, &pf)?;
+	Some(Segment::from_parts(id, hp, hs, lp, ld, proof))
 }
 
 /// a segment encoding in parts so that positions / counts can be perturbed
@@ -2611,22 +3005,40 @@ struct SegParts {
 }
 
 impl SegParts {
-	fn of<T: Item>(s: &Segment<T>, v: u32, prefix: Vec<u8>, suffix: Vec<u8>) -> SegParts {
+	/// `None`: a part of the honest segment cannot be written (reported here)
+	fn of<T: Item>(cx: &mut Ctx, s: &Segment<T>, v: u32, prefix: Vec<u8>, suffix: Vec<u8>) -> Option<SegParts> {
 		let (id, hp, hs, lp, ld, pf) = s.clone().parts();
-		let pfh = proof_hashes(&pf);
-		SegParts {
+		let pfh = match proof_hashes(&pf) {
+			Some(h) => h,
+			None => {
+				cx.oracle_fail(format!("SegmentProof cannot be encoded as count + hashes: {} hashes, writer gives {} [version 1]", pf.size(), show_enc(&enc_at(&pf, 1))));
+				return None;
+			}
+		};
+		let id_bytes = own_enc(cx, &id, v)?;
+		let mut leaves = Vec::with_capacity(ld.len());
+		for d in &ld {
+			match enc_at(d, v) {
+				Ok(b) => leaves.push(b),
+				Err(e) => {
+					cx.oracle_fail(format!("a leaf of {} cannot be encoded: {} ({}) [version {}]", T::SEG_NAME, d.tok(), e, v));
+					return None;
+				}
+			}
+		}
+		Some(SegParts {
 			prefix,
-			id: enc_at(&id, v).unwrap(),
+			id: id_bytes,
 			n_hashes: hs.len() as u64,
-			hash_pos: hp.iter().map(|p| p + 1).collect(),
+			hash_pos: hp.iter().map(|p| p.wrapping_add(1)).collect(),
 			hashes: hs.iter().map(|h| h.as_bytes().to_vec()).collect(),
 			n_leaves: ld.len() as u64,
-			leaf_pos: lp.iter().map(|p| p + 1).collect(),
-			leaves: ld.iter().map(|d| enc_at(d, v).unwrap()).collect(),
+			leaf_pos: lp.iter().map(|p| p.wrapping_add(1)).collect(),
+			leaves,
 			n_proof: pfh.len() as u64,
 			proof: pfh.iter().map(|h| h.as_bytes().to_vec()).collect(),
 			suffix,
-		}
+		})
 	}
 	fn bytes(&self) -> Vec<u8> {
 		let mut b = self.prefix.clone();
@@ -2740,81 +3152,191 @@ fn seg_mutations<T: Ty>(cx: &mut Ctx, v: u32, p: &SegParts) {
 	}
 }
 
-fn segments_of<T: Item>(cx: &mut Ctx, n: usize, big: usize)
+/// the corners of the size space, counted for `#STAT empties`
+fn seg_corners<T: Item>(cx: &mut Ctx, nh: usize, nl: usize, np: usize, origin: &str) {
+	let n = T::SEG_NAME;
+	match np {
+		0 => cx.corner(&format!("{}:proof-0-hashes({})", n, origin)),
+		1 => cx.corner(&format!("{}:proof-1-hash({})", n, origin)),
+		_ => {}
+	}
+	if nh == 0 && nl == 0 {
+		cx.corner(&format!("{}:0-hashes-0-leaves({})", n, origin));
+	}
+	if nh == 0 && nl >= 1 {
+		cx.corner(&format!("{}:0-hashes-k-leaves({})", n, origin));
+	}
+	if nh >= 1 && nl == 0 {
+		cx.corner(&format!("{}:k-hashes-0-leaves-fully-pruned({})", n, origin));
+	}
+	if nh == 1 && nl == 0 {
+		cx.corner(&format!("{}:1-hash-0-leaves({})", n, origin));
+	}
+	if nh == 0 && nl == 1 {
+		cx.corner(&format!("{}:0-hashes-1-leaf({})", n, origin));
+	}
+	if nh == 0 && nl >= 1 && np == 0 {
+		cx.corner(&format!("{}:whole-MMR-in-one-segment({})", n, origin));
+	}
+}
+
+/// everything that is done with one honest segment value
+fn segment_cases<T: Item>(cx: &mut Ctx, s: &Segment<T>, i: usize, perturb: bool)
 where
 	Segment<T>: Ty,
 {
-	for i in 0..n {
-		let (nh, nl, np) = match i % 8 {
-			0 => (0, 0, 0),
-			1 => (1, 1, 1),
-			2 => (0, 2, 3),
-			3 => (5, 0, 0),
-			4 => (cx.rng.below(12) as usize, cx.rng.below(20) as usize, cx.rng.below(10) as usize),
-			5 => (2, 8, 2),
-			6 => (40, if T::SEG_NAME == "RangeProofSegment" { 12 } else { 64 }, 20),
-			_ => (3, big, 7),
-		};
-		let style = cx.rng.next();
-		let s: Segment<T> = gen_segment(&mut cx.rng, nh, nl, np, style);
-		cx.stat(format!(
-			"{} hashes {} leaves {}",
-			T::SEG_NAME,
-			match nh { 0 => "0", 1..=5 => "1-5", _ => ">5" },
-			match nl { 0 => "0", 1..=8 => "1-8", 9..=64 => "9-64", _ => ">64" }
-		));
-		if nl > 64 {
-			// big segments: one decode per wire format, no perturbations (line size)
-			for v in [1u32, 1000].iter() {
-				let b = enc_at(&s, *v).unwrap();
-				dec_case::<Segment<T>>(cx, *v, true, 'A', &b, Some(&s), Expect::Valid, "valid");
+	let (_, _, hs, _, ld, pf) = s.clone().parts();
+	let (nh, nl) = (hs.len(), ld.len());
+	cx.stat(format!(
+		"{} hashes {} leaves {} proof {}",
+		T::SEG_NAME,
+		match nh { 0 => "0", 1 => "1", 2..=5 => "2-5", _ => ">5" },
+		match nl { 0 => "0", 1 => "1", 2..=8 => "2-8", 9..=64 => "9-64", _ => ">64" },
+		match pf.size() { 0 => "0", 1 => "1", 2..=5 => "2-5", _ => ">5" }
+	));
+	if nl > 64 {
+		// big segments: one decode per wire format, no perturbations (line size)
+		for v in [1u32, 1000].iter() {
+			set_env('A', true);
+			if let Some(b) = own_enc(cx, s, *v) {
+				dec_case::<Segment<T>>(cx, *v, true, 'A', &b, Some(s), Expect::Valid, "valid");
 			}
-			continue;
 		}
-		roundtrip_all(cx, 'A', true, &s, nl <= 8);
-		for v in [1u32, 2, 1000].iter() {
-			let p = SegParts::of(&s, *v, vec![], vec![]);
-			let bytes = p.bytes();
-			if bytes != enc_at(&s, *v).unwrap() {
-				cx.out.raw(&format!("#ORACLE-FAIL C10 {} v{}: encoding is not id, count, positions, hashes, count, positions, leaves, proof: {}", T::SEG_NAME, v, hex(&bytes)));
+		return;
+	}
+	roundtrip_all(cx, 'A', true, s, nl <= 8);
+	if !perturb {
+		return;
+	}
+	for v in [1u32, 2, 1000].iter() {
+		set_env('A', true);
+		let p = match SegParts::of(cx, s, *v, vec![], vec![]) {
+			Some(p) => p,
+			None => continue,
+		};
+		let bytes = p.bytes();
+		match enc_at(s, *v) {
+			Ok(real) if real == bytes => {}
+			other => cx.oracle_fail(format!(
+				"{} re-encodes differently: its encoding is not id, count, positions, hashes, count, positions, leaves, proof: writer {} assembled {} [version {}]",
+				T::SEG_NAME,
+				show_enc(&other),
+				shown(&bytes),
+				v
+			)),
+		}
+		seg_mutations::<Segment<T>>(cx, *v, &p);
+		if nl <= 12 {
+			generic_mutations::<Segment<T>>(cx, *v, true, 'A', &bytes, 6, 10);
+		}
+		if T::SEG_NAME != "OutputSegment" && i % 2 == 1 {
+			let resp = SegmentResponse { block_hash: hash32(&mut cx.rng), segment: s.clone() };
+			if *v == 1 {
+				roundtrip_all(cx, 'A', true, &resp, nl <= 2);
 			}
-			seg_mutations::<Segment<T>>(cx, *v, &p);
-			if nl <= 12 {
-				generic_mutations::<Segment<T>>(cx, *v, true, 'A', &bytes, 6, 10);
-			}
-			if T::SEG_NAME != "OutputSegment" && i % 2 == 1 {
-				let resp = SegmentResponse { block_hash: hash32(&mut cx.rng), segment: s.clone() };
-				if *v == 1 {
-					roundtrip_all(cx, 'A', true, &resp, nl <= 2);
-				}
-				let pr = SegParts::of(&s, *v, resp.block_hash.as_bytes().to_vec(), vec![]);
+			if let Some(pr) = SegParts::of(cx, s, *v, resp.block_hash.as_bytes().to_vec(), vec![]) {
 				seg_mutations::<SegmentResponse<T>>(cx, *v, &pr);
 			}
 		}
 	}
 }
 
-fn segments(cx: &mut Ctx) {
-	cx.out.line("ser const max_segment_read_items", "1000000");
-	// identifiers and proofs on their own
-	for _ in 0..(if cx.thorough { 200 } else { 40 }) {
-		let id = gen_seg_id(&mut cx.rng);
-		roundtrip_all(cx, 'A', false, &id, true);
-		let b = enc_at(&id, 1).unwrap();
-		generic_mutations::<SegmentIdentifier>(cx, 1, false, 'A', &b, 9, 3);
-		let np = *cx.rng.pick(&[0usize, 1, 2, 10, 33]);
-		let hs: Vec<Hash> = (0..np).map(|_| hash32(&mut cx.rng)).collect();
-		let pf = mk_proof(&hs);
-		roundtrip_all(cx, 'A', false, &pf, true);
-		let pb = enc_at(&pf, 1).unwrap();
-		for c in [np as u64 + 1, 1_000_000, 1_000_001, u64::MAX].iter() {
-			let mut m = pb.clone();
-			m[..8].copy_from_slice(&c.to_be_bytes());
-			let exp = if *c > 1_000_000 { Expect::Reject } else { Expect::Any };
-			dec_case::<SegmentProof>(cx, 1, false, 'A', &m, None, exp, "count-over-cap");
+fn segments_of<T>(cx: &mut Ctx, n: usize, big: usize)
+where
+	T: Item + PMMRable<E = T> + std::fmt::Debug,
+	Segment<T>: Ty,
+{
+	for i in 0..n {
+		// (pruned-subtree hashes, leaves, proof hashes): every list empty / singleton on purpose
+		let (nh, nl, np) = match i % 14 {
+			0 => (0, 0, 0),
+			1 => (1, 1, 1),
+			2 => (0, 2, 3),
+			3 => (5, 0, 0), // fully pruned, empty proof
+			4 => (cx.rng.below(12) as usize, cx.rng.below(20) as usize, cx.rng.below(10) as usize),
+			5 => (2, 8, 2),
+			6 => (40, if T::SEG_NAME == "RangeProofSegment" { 12 } else { 64 }, 20),
+			7 => (3, big, 7),
+			8 => (0, 1 + cx.rng.below(8) as usize, 0), // the whole MMR in one segment: empty proof
+			9 => (1, 0, 1),                            // fully pruned: the one hash from_pmmr keeps
+			10 => (0, 1, 0),                           // one leaf, nothing else
+			11 => (1 + cx.rng.below(6) as usize, 0, 1), // k hashes, no leaves
+			12 => (0, 0, 1),
+			_ => (1, 0, 0),
+		};
+		let style = cx.rng.next();
+		let s: Segment<T> = match gen_segment(cx, nh, nl, np, style) {
+			Some(s) => s,
+			None => continue,
+		};
+		seg_corners::<T>(cx, nh, nl, np, "from_parts");
+		segment_cases(cx, &s, i, true);
+	}
+	// honest segments over in-memory MMRs, proofs by `SegmentProof::generate` (no decoder involved in
+	// making the value): 1, 2, 3, … leaves, every height up to 3, every index. idx 0 with
+	// n <= 2^height is the whole MMR in one segment, whose proof is EMPTY.
+	let sizes: &[u64] = if cx.thorough { &[1, 2, 3, 4, 5, 6, 7, 8, 9, 11, 16, 21] } else if T::SEG_NAME == "RangeProofSegment" { &[1, 2, 3, 5] } else { &[1, 2, 3, 4, 5, 7, 8] };
+	for (k, n_leaves) in sizes.iter().enumerate() {
+		for s in honest_segments_of::<T>(cx, *n_leaves, 3) {
+			let (_, _, hs, _, ld, pf) = s.clone().parts();
+			seg_corners::<T>(cx, hs.len(), ld.len(), pf.size(), "from_pmmr");
+			let small = pf.size() <= 1 || *n_leaves <= 3;
+			segment_cases(cx, &s, k, small && (cx.thorough || T::SEG_NAME == "OutputSegment" || pf.size() == 0));
 		}
 	}
-	let n = if cx.thorough { 48 } else { 16 };
+}
+
+fn segments(cx: &mut Ctx) {
+	cx.out.line("ser const max_segment_read_items", "1000000");
+	honest_pool(cx);
+	// identifiers and proofs on their own
+	for i in 0..(if cx.thorough { 200 } else { 40 }) {
+		let id = gen_seg_id(&mut cx.rng);
+		roundtrip_all(cx, 'A', false, &id, true);
+		if let Some(b) = own_enc(cx, &id, 1) {
+			generic_mutations::<SegmentIdentifier>(cx, 1, false, 'A', &b, 9, 3);
+		}
+		// 0 and 1 hashes first, deliberately; then the rest
+		let np = match i {
+			0 | 1 => 0usize,
+			2 | 3 => 1,
+			_ => *cx.rng.pick(&[0usize, 1, 2, 10, 33]),
+		};
+		let hs: Vec<Hash> = (0..np).map(|_| hash32(&mut cx.rng)).collect();
+		let pf = match proof_for(cx, &hs) {
+			Some(pf) => pf,
+			None => continue,
+		};
+		match np {
+			0 => cx.corner("SegmentProof:0-hashes(reader)"),
+			1 => cx.corner("SegmentProof:1-hash(reader)"),
+			_ => {}
+		}
+		roundtrip_all(cx, 'A', false, &pf, true);
+		if let Some(pb) = own_enc(cx, &pf, 1) {
+			for c in [np as u64 + 1, 1_000_000, 1_000_001, u64::MAX].iter() {
+				let exp = if *c > 1_000_000 { Expect::Reject } else { Expect::Any };
+				match patched(&pb, 0, &c.to_be_bytes()) {
+					Some(m) => {
+						dec_case::<SegmentProof>(cx, 1, false, 'A', &m, None, exp, "count-over-cap");
+					}
+					None => layout_fail(cx, "SegmentProof", &pb, 1),
+				}
+			}
+			generic_mutations::<SegmentProof>(cx, 1, false, 'A', &pb, 8, 4);
+		}
+	}
+	// the honest proofs of the pool (made by `SegmentProof::generate`), the empty one first
+	let pool: Vec<SegmentProof> = HONEST_PROOFS.with(|p| p.borrow().values().flat_map(|v| v.iter().take(2).cloned()).collect());
+	for pf in pool.iter() {
+		match pf.size() {
+			0 => cx.corner("SegmentProof:0-hashes(from_pmmr)"),
+			1 => cx.corner("SegmentProof:1-hash(from_pmmr)"),
+			_ => {}
+		}
+		roundtrip_all(cx, 'A', false, pf, true);
+	}
+	let n = if cx.thorough { 56 } else { 16 };
 	let big = if cx.thorough { 2000 } else { 300 };
 	segments_of::<OutputIdentifier>(cx, n, big);
 	segments_of::<TxKernel>(cx, n, big / 2);
@@ -2822,27 +3344,50 @@ fn segments(cx: &mut Ctx) {
 	// OutputSegmentResponse
 	for i in 0..(if cx.thorough { 24 } else { 8 }) {
 		let style = cx.rng.next();
-		let s: Segment<OutputIdentifier> = gen_segment(&mut cx.rng, i % 4, 1 + i % 5, i % 3, style);
+		// i = 0: no hashes, one leaf, EMPTY proof; i = 4: one hash, one leaf, one proof hash
+		let s: Segment<OutputIdentifier> = match gen_segment(cx, i % 4, 1 + i % 5, i % 3, style) {
+			Some(s) => s,
+			None => continue,
+		};
+		if i % 3 == 0 {
+			cx.corner("OutputSegmentResponse:proof-0-hashes");
+		}
 		let r = OutputSegmentResponse {
 			response: SegmentResponse { block_hash: hash32(&mut cx.rng), segment: s.clone() },
 			output_bitmap_root: hash32(&mut cx.rng),
 		};
 		roundtrip_all(cx, 'A', false, &r, true);
-		let p = SegParts::of(&s, 1, r.response.block_hash.as_bytes().to_vec(), r.output_bitmap_root.as_bytes().to_vec());
-		seg_mutations::<OutputSegmentResponse>(cx, 1, &p);
-		generic_mutations::<OutputSegmentResponse>(cx, 1, false, 'A', &p.bytes(), 8, 8);
+		if let Some(p) = SegParts::of(cx, &s, 1, r.response.block_hash.as_bytes().to_vec(), r.output_bitmap_root.as_bytes().to_vec()) {
+			seg_mutations::<OutputSegmentResponse>(cx, 1, &p);
+			generic_mutations::<OutputSegmentResponse>(cx, 1, false, 'A', &p.bytes(), 8, 8);
+		}
+	}
+	// honest whole-MMR output segments (empty proof) inside the two response messages
+	for n_leaves in [1u64, 2, 4].iter() {
+		for s in honest_segments_of::<OutputIdentifier>(cx, *n_leaves, 2) {
+			let (_, _, _, _, _, pf) = s.clone().parts();
+			if pf.size() > 1 {
+				continue;
+			}
+			cx.corner(if pf.size() == 0 { "OutputSegmentResponse:proof-0-hashes(from_pmmr)" } else { "OutputSegmentResponse:proof-1-hash(from_pmmr)" });
+			let r = OutputSegmentResponse {
+				response: SegmentResponse { block_hash: hash32(&mut cx.rng), segment: s },
+				output_bitmap_root: hash32(&mut cx.rng),
+			};
+			roundtrip_all(cx, 'A', false, &r, true);
+		}
 	}
 	// a leaf position of u64::MAX cannot be written: `1 + pos` wraps to 0 (release arithmetic), which the reader refuses
-	{
+	if let Some(pf) = proof_for(cx, &[]) {
 		let s: Segment<OutputIdentifier> = Segment::from_parts(
 			SegmentIdentifier { height: 0, idx: 0 },
 			vec![],
 			vec![],
 			vec![u64::MAX],
 			vec![OutputIdentifier::gen(&mut cx.rng, 0)],
-			mk_proof(&[]),
+			pf,
 		);
-		if let Ok(Ok(b)) = catch(AssertUnwindSafe(|| enc_at(&s, 1))) {
+		if let Ok(b) = enc_at(&s, 1) {
 			cx.out.line(&format!("ser enc OutputSegment 1 A {}", seg_tokens(&s)), &format!("{} none", hex(&b)));
 			dec_case::<Segment<OutputIdentifier>>(cx, 1, false, 'A', &b, None, Expect::Any, "pos-u64max-wraps");
 		}
@@ -2893,7 +3438,8 @@ fn gen_block_bits(rng: &mut Rng, n_chunks: usize, kind: u64) -> BlockBits {
 	BlockBits(bits)
 }
 
-fn bitmap_segment_from(id: SegmentIdentifier, blocks: &[BlockBits], proof: &[Hash]) -> Option<BitmapSegment> {
+/// `proof`: an honestly made or reader-made `SegmentProof` (see `proof_for`)
+fn bitmap_segment_from(id: SegmentIdentifier, blocks: &[BlockBits], pf: SegmentProof) -> Option<BitmapSegment> {
 	let mut chunks = vec![];
 	for b in blocks {
 		for c in b.0.chunks(1024) {
@@ -2907,7 +3453,6 @@ fn bitmap_segment_from(id: SegmentIdentifier, blocks: &[BlockBits], proof: &[Has
 		}
 	}
 	let lp: Vec<u64> = (0..chunks.len() as u64).map(|i| 2 * i + 1).collect();
-	let pf = mk_proof(proof);
 	catch(AssertUnwindSafe(move || BitmapSegment::from(Segment::from_parts(id, vec![], vec![], lp, chunks, pf)))).ok()
 }
 
@@ -2960,8 +3505,21 @@ fn bitmaps(cx: &mut Ctx) {
 			blocks.push(gen_block_bits(&mut cx.rng, c, kind));
 			left -= c;
 		}
+		// i % 4 = 0: EMPTY proof (the whole bitmap MMR in one segment), 1: a single hash
 		let np = (i % 4) as usize;
-		let proof: Vec<Hash> = (0..np).map(|_| hash32(&mut cx.rng)).collect();
+		let wanted: Vec<Hash> = (0..np).map(|_| hash32(&mut cx.rng)).collect();
+		let pf = match proof_for(cx, &wanted) {
+			Some(pf) => pf,
+			None => continue,
+		};
+		// the hashes the proof really has (an honest stand-in has its own)
+		let proof: Vec<Hash> = match proof_hashes(&pf) {
+			Some(h) => h,
+			None => {
+				cx.oracle_fail(format!("SegmentProof cannot be encoded as count + hashes: {} hashes, writer gives {} [version 1]", pf.size(), show_enc(&enc_at(&pf, 1))));
+				continue;
+			}
+		};
 		for b in &blocks {
 			let pos = b.0.iter().filter(|x| **x).count();
 			cx.stat(format!(
@@ -2971,16 +3529,31 @@ fn bitmaps(cx: &mut Ctx) {
 				match pos { 0 => "0".to_string(), 4095 => "4095".to_string(), 4096 => "4096".to_string(), 4097 => "4097".to_string(), x if x == b.0.len() => "all".to_string(), x if x + 4095 == b.0.len() => "all-4095".to_string(), x if x + 4096 == b.0.len() => "all-4096".to_string(), _ => "other".to_string() }
 			));
 		}
-		let seg = match bitmap_segment_from(id, &blocks, &proof) {
+		let seg = match bitmap_segment_from(id, &blocks, pf) {
 			Some(s) => s,
-			None => continue,
+			None => {
+				cx.stat("BitmapSegment::from panicked".to_string());
+				continue;
+			}
 		};
+		if np <= 1 {
+			cx.corner(if np == 0 { "BitmapSegment:proof-0-hashes" } else { "BitmapSegment:proof-1-hash" });
+		}
+		if blocks.len() == 1 {
+			cx.corner("BitmapSegment:1-block");
+			if n_chunks == 1 {
+				cx.corner("BitmapSegment:1-block-of-1-chunk");
+			}
+		}
 		// the writer's bytes are the harness' own canonical assembly
 		let canon: Vec<(BlockBits, u8, u8)> = blocks.iter().map(|b| (b.clone(), b.canonical_mode(), 0)).collect();
 		let expect = bitmap_bytes(&id, blocks.len() as u16, &canon, &proof);
-		let real = enc_at(&seg, 1).unwrap();
+		let real = match own_enc(cx, &seg, 1) {
+			Some(r) => r,
+			None => continue,
+		};
 		if real != expect {
-			cx.out.raw(&format!("#ORACLE-FAIL C10 BitmapSegment: the writer does not follow the threshold rule (positive < 4096 set, negative < 4096 clear, else raw): h={} idx={} chunks={}", h, idx, n_chunks));
+			cx.oracle_fail(format!("BitmapSegment re-encodes differently: the writer does not follow the threshold rule (positive < 4096 set, negative < 4096 clear, else raw): h={} idx={} chunks={}: writer {} expected {}", h, idx, n_chunks, shown(&real), shown(&expect)));
 		}
 		let small = n_chunks <= 16;
 		if n_chunks >= 64 {
@@ -2995,9 +3568,13 @@ fn bitmaps(cx: &mut Ctx) {
 		roundtrip_all(cx, 'A', false, &seg, small);
 		if i % 4 == 0 {
 			let r = OutputBitmapSegmentResponse { block_hash: hash32(&mut cx.rng), segment: seg.clone(), output_root: hash32(&mut cx.rng) };
+			if np == 0 {
+				cx.corner("OutputBitmapSegmentResponse:proof-0-hashes");
+			}
 			for v in [1u32, 1000].iter() {
-				let b = enc_at(&r, *v).unwrap();
-				dec_case::<OutputBitmapSegmentResponse>(cx, *v, false, 'A', &b, Some(&r), Expect::Valid, "valid");
+				if let Some(b) = own_enc(cx, &r, *v) {
+					dec_case::<OutputBitmapSegmentResponse>(cx, *v, false, 'A', &b, Some(&r), Expect::Valid, "valid");
+				}
 			}
 			if small {
 				let _ = enc_case(cx, 2, 'A', &r);
@@ -3095,7 +3672,7 @@ fn bitmaps(cx: &mut Ctx) {
 				};
 				let bytes = bitmap_bytes(&id4, full.len() as u16, &full, &proof);
 				if dec_case::<BitmapSegment>(cx, 1, false, 'A', &bytes, None, Expect::Any, "leaf-index-last-below-2^63").is_none() {
-					cx.out.raw(&format!("#ORACLE-FAIL C10 BitmapSegment: a full segment whose last leaf index is 2^63-1 is refused: {}", hex(&bytes)));
+					cx.oracle_fail(format!("BitmapSegment does not decode from its own encoding: a full segment whose last leaf index is 2^63-1 is refused: {} [version 1]", hex(&bytes)));
 				}
 			}
 		}
@@ -3138,6 +3715,68 @@ fn bitmaps(cx: &mut Ctx) {
 		}
 		generic_mutations::<BitmapSegment>(cx, 1, false, 'A', &base, 6, 12);
 	}
+	// honest bitmap segments: a `BitmapAccumulator` over `n_out` outputs, every segment of heights
+	// 0..=3 as `Segment::from_pmmr` produces it (proof by `SegmentProof::generate`, no decoder
+	// involved), turned into the wire type. Up to 1024 outputs there is ONE chunk and the height-0
+	// segment 0 is the whole MMR: one block of one chunk and an EMPTY proof.
+	let outs: &[u64] = if cx.thorough { &[1, 2, 1000, 1024, 1025, 2048, 2049, 3000, 4096, 5000] } else { &[1, 1024, 1025, 2048, 3000] };
+	for n_out in outs.iter() {
+		let mut unspent: Vec<u64> = (0..*n_out).filter(|_| cx.rng.chance(1, 2)).collect();
+		if unspent.last() != Some(&(n_out - 1)) {
+			unspent.push(n_out - 1);
+		}
+		let mut acc = BitmapAccumulator::new();
+		match catch(AssertUnwindSafe(|| acc.init(unspent.iter().cloned(), *n_out))) {
+			Ok(Ok(())) => {}
+			_ => {
+				cx.stat(format!("honest BitmapAccumulator init failed n_out={}", n_out));
+				continue;
+			}
+		}
+		let n_chunks = (*n_out + 1023) / 1024;
+		for h in 0u8..=3 {
+			let count = (n_chunks + (1u64 << h) - 1) >> h;
+			for idx in 0..count {
+				let id = SegmentIdentifier { height: h, idx };
+				let made = catch(AssertUnwindSafe(|| {
+					let mmr = acc.readonly_pmmr();
+					Segment::<BitmapChunk>::from_pmmr(id, &mmr, false).map(BitmapSegment::from)
+				}));
+				let seg = match made {
+					Ok(Ok(s)) => s,
+					_ => {
+						cx.stat(format!("honest BitmapSegment from_pmmr failed n_out={} h={} idx={}", n_out, h, idx));
+						continue;
+					}
+				};
+				let np = match bitmap_blocks(&seg) {
+					Some((_, blocks, pf)) => {
+						if blocks.len() == 1 {
+							cx.corner("BitmapSegment:1-block(from_pmmr)");
+							if blocks.first().map(|b| b.0.len()) == Some(1024) {
+								cx.corner("BitmapSegment:1-block-of-1-chunk(from_pmmr)");
+							}
+						}
+						pf.len()
+					}
+					None => {
+						cx.oracle_fail(format!("BitmapSegment made by from_pmmr (n_out={} h={} idx={}) cannot be turned back into a segment / its proof cannot be written", n_out, h, idx));
+						continue;
+					}
+				};
+				if np <= 1 {
+					cx.corner(if np == 0 { "BitmapSegment:proof-0-hashes(from_pmmr)" } else { "BitmapSegment:proof-1-hash(from_pmmr)" });
+				}
+				cx.stat(format!("BitmapSegment honest chunks {} proof {}", n_chunks.min(1u64 << h), match np { 0 => "0", 1 => "1", _ => ">1" }));
+				roundtrip_all(cx, 'A', false, &seg, true);
+				if np == 0 {
+					let r = OutputBitmapSegmentResponse { block_hash: hash32(&mut cx.rng), segment: seg.clone(), output_root: hash32(&mut cx.rng) };
+					cx.corner("OutputBitmapSegmentResponse:proof-0-hashes(from_pmmr)");
+					roundtrip_all(cx, 'A', false, &r, true);
+				}
+			}
+		}
+	}
 	// two blocks where the first is not full
 	{
 		let id = SegmentIdentifier { height: 7, idx: 1 };
@@ -3149,11 +3788,12 @@ fn bitmaps(cx: &mut Ctx) {
 	// a segment without chunks writes a block count of 0, which its own reader refuses
 	{
 		let id = SegmentIdentifier { height: 3, idx: 0 };
-		if let Some(seg) = bitmap_segment_from(id, &[], &[]) {
-			let b = enc_at(&seg, 1).unwrap();
-			let r: Result<BitmapSegment, _> = ser::deserialize(&mut &b[..], ProtocolVersion(1), DeserializationMode::default());
-			if r.is_err() {
-				cx.out.raw(&format!("#KNOWN-PROBE C10 bitmapsegment-empty-own-encoding-refused: BitmapSegment::from(a segment without leaves) writes {} (block count 0), which BitmapSegment::read refuses", hex(&b)));
+		if let Some(seg) = proof_for(cx, &[]).and_then(|pf| bitmap_segment_from(id, &[], pf)) {
+			cx.corner("BitmapSegment:0-blocks(writer only; its own reader refuses it: known finding)");
+			if let Ok(b) = enc_at(&seg, 1) {
+				if dec_full::<BitmapSegment>(&b, 1).is_err() {
+					cx.out.raw(&format!("#KNOWN-PROBE C10 bitmapsegment-empty-own-encoding-refused: BitmapSegment::from(a segment without leaves) writes {} (block count 0), which BitmapSegment::read refuses", hex(&b)));
+				}
 			}
 		}
 	}
@@ -3203,29 +3843,32 @@ fn max_msg_size_copy(t: u8, mbw: u64) -> u64 {
 
 fn hdr_line(cx: &mut Ctx, chain: char, bytes: &[u8], what: &str) -> Option<(bool, u8, u64)> {
 	set_env(chain, false);
-	let mut src = &bytes[..];
-	let r: Result<MsgHeaderWrapper, _> = ser::deserialize(&mut src, ProtocolVersion(1), DeserializationMode::default());
-	let consumed = bytes.len() - src.len();
 	let lhs = format!("ser hdr {} {}", chain, hex(bytes));
-	match r {
-		Ok(MsgHeaderWrapper::Known(h)) => {
+	match dec_full::<MsgHeaderWrapper>(bytes, 1) {
+		Ok((MsgHeaderWrapper::Known(h), consumed)) => {
 			cx.out.line(&lhs, &format!("known {} {} {}", h.msg_type as u8, h.msg_len, consumed));
 			cx.stat(format!("MsgHeader {} {} known", chain, what));
 			// canonical form: the header re-encodes to the bytes consumed
-			let re = enc_at(&h, 1).unwrap();
-			if re[..] != bytes[..consumed] {
-				cx.out.raw(&format!("#ORACLE-FAIL C10 MsgHeader: accepted header does not re-encode to the bytes read: {}", hex(bytes)));
+			match enc_at(&h, 1) {
+				Ok(re) if Some(&re[..]) == bytes.get(..consumed) => {}
+				other => cx.oracle_fail(format!("MsgHeader re-encodes differently: in={} out={} [version 1]", hex(bytes), show_enc(&other))),
 			}
 			Some((true, h.msg_type as u8, h.msg_len))
 		}
-		Ok(MsgHeaderWrapper::Unknown(len, t)) => {
+		Ok((MsgHeaderWrapper::Unknown(len, t), consumed)) => {
 			cx.out.line(&lhs, &format!("unknown {} {} {}", t, len, consumed));
 			cx.stat(format!("MsgHeader {} {} unknown", chain, what));
 			Some((false, t, len))
 		}
+		Err(e) if e.starts_with("panic(") => {
+			cx.out.line(&lhs, "panic");
+			cx.oracle_fail(format!("decoder of MsgHeader panicked {} on {}", e, hex(bytes)));
+			cx.stat(format!("MsgHeader {} {} panic", chain, what));
+			None
+		}
 		Err(e) => {
-			cx.out.line(&lhs, &format!("err {}", err_name(&e)));
-			cx.stat(format!("MsgHeader {} {} err:{}", chain, what, err_name(&e)));
+			cx.out.line(&lhs, &format!("err {}", e));
+			cx.stat(format!("MsgHeader {} {} err:{}", chain, what, e));
 			None
 		}
 	}
@@ -3248,16 +3891,27 @@ fn msg_headers(cx: &mut Ctx) {
 			for len in lens.iter() {
 				// the real writer
 				let h = MsgHeader::new(*ty, *len);
-				let b = enc_at(&h, 1).unwrap();
-				cx.out.line(&format!("ser enc MsgHeader{} 1 {} {} {}", chain, chain, t, len), &format!("{} none", hex(&b)));
+				set_env(*chain, false);
+				let eb = enc_at(&h, 1);
+				cx.out.line(&format!("ser enc MsgHeader{} 1 {} {} {}", chain, chain, t, len), &format!("{} none", show_enc(&eb)));
+				let b = match eb {
+					Ok(b) => b,
+					Err(e) => {
+						cx.oracle_fail(format!("MsgHeader cannot be encoded: type {} length {} ({}) [version 1]", t, len, e));
+						continue;
+					}
+				};
+				if *len == 0 {
+					cx.corner("MsgHeader:zero-length-body");
+				}
 				if b != mk(t, *len) {
-					cx.out.raw(&format!("#ORACLE-FAIL C10 MsgHeader: writer output is not magic, type, length: {}", hex(&b)));
+					cx.oracle_fail(format!("MsgHeader re-encodes differently: writer output is not magic, type, length: {}", hex(&b)));
 				}
 				let r = hdr_line(cx, *chain, &b, if *len <= lim { "within-limit" } else { "over-limit" });
 				match (r, *len <= lim) {
 					(Some((true, t2, l2)), true) if t2 == t && l2 == *len => {}
 					(None, false) => {}
-					_ => cx.out.raw(&format!("#ORACLE-FAIL C10 MsgHeader: type {} length {} (limit {}): header does not round-trip / limit not applied: {}", t, len, lim, hex(&b))),
+					_ => cx.oracle_fail(format!("MsgHeader does not decode from its own encoding: type {} length {} (limit {}): header does not round-trip / limit not applied: {}", t, len, lim, hex(&b))),
 				}
 			}
 		}
@@ -3270,7 +3924,7 @@ fn msg_headers(cx: &mut Ctx) {
 				match (r, *len <= lim) {
 					(Some((false, t2, l2)), true) if t2 == *t && l2 == *len => {}
 					(None, false) => {}
-					_ => cx.out.raw(&format!("#ORACLE-FAIL C10 MsgHeader: unknown type {} length {}: not Unknown(len, type) / limit not applied: {}", t, len, hex(&b))),
+					_ => cx.oracle_fail(format!("MsgHeader: unknown type {} length {}: not Unknown(len, type) / limit not applied: {}", t, len, hex(&b))),
 				}
 			}
 		}
@@ -3280,7 +3934,7 @@ fn msg_headers(cx: &mut Ctx) {
 			b[0] = *m0;
 			b[1] = *m1;
 			if hdr_line(cx, *chain, &b, "wrong-magic").is_some() {
-				cx.out.raw(&format!("#ORACLE-FAIL C10 MsgHeader: wrong magic accepted: {}", hex(&b)));
+				cx.oracle_fail(format!("MsgHeader: wrong magic accepted: {}", hex(&b)));
 			}
 		}
 		// truncations, trailing bytes, random bytes
@@ -3361,7 +4015,7 @@ fn user_agent(rng: &mut Rng, i: usize) -> String {
 		1 => "MW/Grin 5.4.0-alpha.0".to_string(),
 		2 => "grïn ✓ 🚀 \u{7ff}\u{800}\u{ffff}\u{10000}\u{10ffff}".to_string(),
 		3 => "x".repeat(1000),
-		4 => String::from_utf8(rng.bytes(20).iter().map(|b| b % 128).collect()).unwrap(),
+		4 => rng.bytes(20).iter().map(|b| (b % 128) as char).collect(),
 		_ => "\u{0}\u{7f}\u{80}".to_string(),
 	}
 }
@@ -3370,10 +4024,80 @@ fn pver(rng: &mut Rng) -> ProtocolVersion {
 	ProtocolVersion(*rng.pick(&[0u32, 1, 2, 3, 1000, u32::MAX, 65536]))
 }
 
-const BAD_UTF8: [&[u8]; 8] = [
-	&[0x80], &[0xc0, 0x80], &[0xc2], &[0xe0, 0x80, 0x80], &[0xed, 0xa0, 0x80], &[0xf0, 0x80, 0x80, 0x80],
-	&[0xf4, 0x90, 0x80, 0x80], &[0xff],
+/// Ill-formed UTF-8: every one of these must make a string field refuse (`CorruptedData`) wherever
+/// it sits in the string. Lone / stray bytes, truncated sequences, a lead byte followed by a
+/// non-continuation byte, overlong encodings, UTF-16 surrogates, code points above U+10FFFF, the
+/// 5- and 6-byte forms of the original UTF-8.
+const BAD_UTF8: [&[u8]; 30] = [
+	// bytes that never occur / lone continuation bytes
+	&[0xff], &[0xfe], &[0x80], &[0xbf], &[0x80, 0x80],
+	// truncated lead bytes (2-, 3-, 4-byte sequences cut short)
+	&[0xc2], &[0xdf], &[0xe2], &[0xe2, 0x82], &[0xf0], &[0xf0, 0x9f], &[0xf0, 0x9f, 0x9a],
+	// a lead byte followed by something that is not a continuation byte
+	&[0xc3, 0x28], &[0xe2, 0x28, 0xa1], &[0xe2, 0x82, 0x28], &[0xf0, 0x28, 0x8c, 0xbc], &[0xf0, 0x90, 0x8c, 0x28],
+	// overlong encodings of U+0000, U+007F, U+07FF, U+FFFF
+	&[0xc0, 0x80], &[0xc1, 0xbf], &[0xe0, 0x80, 0x80], &[0xe0, 0x9f, 0xbf], &[0xf0, 0x80, 0x80, 0x80], &[0xf0, 0x8f, 0xbf, 0xbf],
+	// UTF-16 surrogates U+D800, U+DFFF and a CESU-8 surrogate pair
+	&[0xed, 0xa0, 0x80], &[0xed, 0xbf, 0xbf], &[0xed, 0xa0, 0xbd, 0xed, 0xb8, 0x80],
+	// above U+10FFFF, and the 5- / 6-byte forms
+	&[0xf4, 0x90, 0x80, 0x80], &[0xf5, 0x80, 0x80, 0x80], &[0xf8, 0x88, 0x80, 0x80, 0x80], &[0xfc, 0x84, 0x80, 0x80, 0x80, 0x80],
 ];
+
+/// well-formed boundary cases of the same classes: the last code point of each length, the neighbours
+/// of the surrogate gap, U+10FFFF — these must be ACCEPTED and come back byte for byte
+const GOOD_UTF8: [&[u8]; 9] = [
+	&[0x7f], &[0xc2, 0x80], &[0xdf, 0xbf], &[0xe0, 0xa0, 0x80], &[0xed, 0x9f, 0xbf], &[0xee, 0x80, 0x80],
+	&[0xef, 0xbf, 0xbf], &[0xf0, 0x90, 0x80, 0x80], &[0xf4, 0x8f, 0xbf, 0xbf],
+];
+
+/// `head ++ len-prefixed string ++ tail`, for every ill-formed sequence at the start, in the middle, at
+/// the end and alone: `T`'s reader must refuse each (an accepted one that re-encodes differently is
+/// an oracle failure of its own, printed by `dec_case`); and for the well-formed boundary strings it
+/// must accept and re-encode identically.
+fn string_field_cases<T: Ty>(cx: &mut Ctx, head: &[u8], tail: &[u8], versions: &[u32]) {
+	let assemble = |s: &[u8]| {
+		let mut m = head.to_vec();
+		m.extend_from_slice(&(s.len() as u64).to_be_bytes());
+		m.extend_from_slice(s);
+		m.extend_from_slice(tail);
+		m
+	};
+	for bad in BAD_UTF8.iter() {
+		let mut places: Vec<Vec<u8>> = vec![bad.to_vec()];
+		let mut s = b"a".to_vec();
+		s.extend_from_slice(bad);
+		places.push(s);
+		let mut s = bad.to_vec();
+		s.push(b'a');
+		places.push(s);
+		let mut s = b"MW/Grin ".to_vec();
+		s.extend_from_slice(bad);
+		s.extend_from_slice(" 5.4 \u{e9}".as_bytes());
+		places.push(s);
+		for (k, s) in places.iter().enumerate() {
+			let v = versions.get(k % versions.len().max(1)).cloned().unwrap_or(1);
+			let m = assemble(s);
+			dec_case::<T>(cx, v, false, 'A', &m, None, Expect::Reject, "invalid-utf8");
+			cx.stat(format!("{} string field ill-formed UTF-8 cases", T::NAME));
+		}
+	}
+	for good in GOOD_UTF8.iter() {
+		let mut s = b"x".to_vec();
+		s.extend_from_slice(good);
+		s.push(b'y');
+		for s in [good.to_vec(), s].iter() {
+			let m = assemble(s);
+			if dec_case::<T>(cx, 1, false, 'A', &m, None, Expect::Any, "valid-utf8-boundary").is_none() {
+				cx.oracle_fail(format!("{} does not decode from its own encoding: a well-formed UTF-8 string field ({}) is refused: {} [version 1]", T::NAME, hex(s), hex(&m)));
+			}
+		}
+	}
+	// the empty string, on purpose
+	cx.corner(&format!("{}:empty-string-field", T::NAME));
+	if dec_case::<T>(cx, 1, false, 'A', &assemble(&[]), None, Expect::Any, "empty-string").is_none() {
+		cx.oracle_fail(format!("{} does not decode from its own encoding: an empty string field is refused: {} [version 1]", T::NAME, hex(&assemble(&[]))));
+	}
+}
 
 fn messages(cx: &mut Ctx) {
 	for (name, real) in [
@@ -3392,14 +4116,14 @@ fn messages(cx: &mut Ctx) {
 	for i in 0..n {
 		let a = gen_addr(&mut cx.rng, i as u64);
 		roundtrip_all(cx, 'A', false, &a, true);
-		let b = enc_at(&a, 1).unwrap();
-		generic_mutations::<PeerAddr>(cx, 1, false, 'A', &b, 19, 6);
+		if let Some(b) = own_enc(cx, &a, 1) {
+			generic_mutations::<PeerAddr>(cx, 1, false, 'A', &b, 19, 6);
+		}
 		// every tag byte other than 0 is read as V6
 		for _ in 0..2 {
 			let t = cx.rng.range(2, 255) as u8;
-			let mut m = vec![t];
-			m.extend_from_slice(&cx.rng.bytes(18));
-			m[1] |= 0x20;
+			let mut m = vec![t, cx.rng.next() as u8 | 0x20];
+			m.extend_from_slice(&cx.rng.bytes(17));
 			dec_case::<PeerAddr>(cx, 1, false, 'A', &m, None, Expect::Reject, "unknown-address-tag");
 		}
 	}
@@ -3418,6 +4142,9 @@ fn messages(cx: &mut Ctx) {
 			receiver_addr: gen_addr(&mut cx.rng, (i / 6) as u64),
 			user_agent: user_agent(&mut cx.rng, i),
 		};
+		if h.user_agent.is_empty() {
+			cx.corner("Hand:empty-user-agent");
+		}
 		roundtrip_all(cx, 'A', false, &h, true);
 		let s = Shake {
 			version: pver(&mut cx.rng),
@@ -3426,36 +4153,56 @@ fn messages(cx: &mut Ctx) {
 			total_difficulty: Difficulty::from_num(pick_u64(&mut cx.rng)),
 			user_agent: user_agent(&mut cx.rng, i + 1),
 		};
+		if s.user_agent.is_empty() {
+			cx.corner("Shake:empty-user-agent");
+		}
 		roundtrip_all(cx, 'A', false, &s, true);
-		let hb = enc_at(&h, 1).unwrap();
-		let sb = enc_at(&s, 1).unwrap();
+		let (hb, sb) = match (own_enc(cx, &h, 1), own_enc(cx, &s, 1)) {
+			(Some(hb), Some(sb)) => (hb, sb),
+			_ => continue,
+		};
 		if h.user_agent.len() < 100 {
 			generic_mutations::<Hand>(cx, 1, false, 'A', &hb, 10, 16);
 			generic_mutations::<Shake>(cx, 3, false, 'A', &sb, 10, 16);
 		}
 		// capability bits outside the defined flags
 		for bits in [0x80u32, 0xffff_ffff, 0x8000_0001, 1 << cx.rng.range(7, 31)].iter() {
-			let mut m = hb.clone();
-			m[4..8].copy_from_slice(&bits.to_be_bytes());
-			dec_case::<Hand>(cx, 1, false, 'A', &m, None, Expect::Any, "unknown-capability-bits");
-			let mut m = sb.clone();
-			m[4..8].copy_from_slice(&bits.to_be_bytes());
-			dec_case::<Shake>(cx, 1, false, 'A', &m, None, Expect::Any, "unknown-capability-bits");
+			match (patched(&hb, 4, &bits.to_be_bytes()), patched(&sb, 4, &bits.to_be_bytes())) {
+				(Some(mh), Some(ms)) => {
+					dec_case::<Hand>(cx, 1, false, 'A', &mh, None, Expect::Any, "unknown-capability-bits");
+					dec_case::<Shake>(cx, 1, false, 'A', &ms, None, Expect::Any, "unknown-capability-bits");
+				}
+				_ => layout_fail(cx, "Hand / Shake", &hb, 1),
+			}
 			dec_case::<GetPeerAddrs>(cx, 1, false, 'A', &bits.to_be_bytes(), None, Expect::Any, "unknown-capability-bits");
 		}
-		// a user agent that is not UTF-8 / longer than one read may be
+		// a user agent that is not UTF-8 / longer than one read may be: in the Shake AND in the Hand
 		let bad = BAD_UTF8[i % BAD_UTF8.len()];
-		let ua_off = sb.len() - 32 - s.user_agent.len() - 8;
-		let mut m = sb[..ua_off].to_vec();
-		m.extend_from_slice(&(bad.len() as u64 + 1).to_be_bytes());
-		m.push(b'a');
-		m.extend_from_slice(bad);
-		m.extend_from_slice(&sb[sb.len() - 32..]);
-		dec_case::<Shake>(cx, 1, false, 'A', &m, None, Expect::Reject, "invalid-utf8");
-		let mut m = sb[..ua_off].to_vec();
-		m.extend_from_slice(&100_001u64.to_be_bytes());
-		m.extend_from_slice(&vec![b'a'; 200]);
-		dec_case::<Shake>(cx, 1, false, 'A', &m, None, Expect::Reject, "string-over-cap");
+		let s_ua_off = sb.len().checked_sub(32 + s.user_agent.len() + 8);
+		let h_ua_off = hb.len().checked_sub(32 + h.user_agent.len() + 8);
+		match (s_ua_off.and_then(|o| sb.get(..o)), sb.get(sb.len().saturating_sub(32)..), h_ua_off.and_then(|o| hb.get(..o)), hb.get(hb.len().saturating_sub(32)..)) {
+			(Some(s_head), Some(s_tail), Some(h_head), Some(h_tail)) => {
+				let with_ua = |head: &[u8], len: u64, body: &[u8], tail: &[u8]| {
+					let mut m = head.to_vec();
+					m.extend_from_slice(&len.to_be_bytes());
+					m.extend_from_slice(body);
+					m.extend_from_slice(tail);
+					m
+				};
+				let mut ua = vec![b'a'];
+				ua.extend_from_slice(bad);
+				dec_case::<Shake>(cx, 1, false, 'A', &with_ua(s_head, ua.len() as u64, &ua, s_tail), None, Expect::Reject, "invalid-utf8");
+				dec_case::<Hand>(cx, 1, false, 'A', &with_ua(h_head, ua.len() as u64, &ua, h_tail), None, Expect::Reject, "invalid-utf8");
+				dec_case::<Shake>(cx, 1, false, 'A', &with_ua(s_head, 100_001, &vec![b'a'; 200], &[]), None, Expect::Reject, "string-over-cap");
+				dec_case::<Hand>(cx, 1, false, 'A', &with_ua(h_head, 100_001, &vec![b'a'; 200], &[]), None, Expect::Reject, "string-over-cap");
+				if i == 0 {
+					// the whole ill-formed UTF-8 catalogue in every position of the string, both messages
+					string_field_cases::<Shake>(cx, s_head, s_tail, &[1, 2, 3, 1000]);
+					string_field_cases::<Hand>(cx, h_head, h_tail, &[1, 2, 3, 1000]);
+				}
+			}
+			_ => layout_fail(cx, "Hand / Shake", &sb, 1),
+		}
 		// GetPeerAddrs, Ping, Pong, TxHashSet*, SegmentRequest, PeerError
 		let g = GetPeerAddrs { capabilities: caps_of(&mut cx.rng) };
 		roundtrip_all(cx, 'A', false, &g, true);
@@ -3465,45 +4212,117 @@ fn messages(cx: &mut Ctx) {
 		roundtrip_all(cx, 'A', false, &po, true);
 		let tr = TxHashSetRequest { hash: hash32(&mut cx.rng), height: pick_u64(&mut cx.rng) };
 		roundtrip_all(cx, 'A', false, &tr, true);
-		let ta = TxHashSetArchive { hash: hash32(&mut cx.rng), height: pick_u64(&mut cx.rng), bytes: pick_u64(&mut cx.rng) };
+		// the first archives announce a zero-length / one-byte attachment on purpose
+		let ta = TxHashSetArchive {
+			hash: hash32(&mut cx.rng),
+			height: pick_u64(&mut cx.rng),
+			bytes: match i {
+				0 | 1 => 0,
+				2 => 1,
+				_ => pick_u64(&mut cx.rng),
+			},
+		};
+		match ta.bytes {
+			0 => cx.corner("TxHashSetArchive:0-bytes-attachment"),
+			1 => cx.corner("TxHashSetArchive:1-byte-attachment"),
+			_ => {}
+		}
 		roundtrip_all(cx, 'A', false, &ta, true);
 		let sr = SegmentRequest { block_hash: hash32(&mut cx.rng), identifier: gen_seg_id(&mut cx.rng) };
 		roundtrip_all(cx, 'A', false, &sr, true);
 		let pe = PeerError { code: pick_u64(&mut cx.rng) as u32, message: user_agent(&mut cx.rng, i + 2) };
+		if pe.message.is_empty() {
+			cx.corner("PeerError:empty-message");
+		}
 		roundtrip_all(cx, 'A', false, &pe, true);
 		if i < 8 {
-			generic_mutations::<Ping>(cx, 1, false, 'A', &enc_at(&pi, 1).unwrap(), 16, 2);
-			generic_mutations::<TxHashSetArchive>(cx, 1, false, 'A', &enc_at(&ta, 1).unwrap(), 48, 2);
-			generic_mutations::<SegmentRequest>(cx, 1, false, 'A', &enc_at(&sr, 1).unwrap(), 41, 2);
-			generic_mutations::<PeerError>(cx, 1, false, 'A', &enc_at(&pe, 1).unwrap(), 12, 6);
+			if let (Some(bpi), Some(bta), Some(bsr), Some(bpe)) = (own_enc(cx, &pi, 1), own_enc(cx, &ta, 1), own_enc(cx, &sr, 1), own_enc(cx, &pe, 1)) {
+				generic_mutations::<Ping>(cx, 1, false, 'A', &bpi, 16, 2);
+				generic_mutations::<TxHashSetArchive>(cx, 1, false, 'A', &bta, 48, 2);
+				generic_mutations::<SegmentRequest>(cx, 1, false, 'A', &bsr, 41, 2);
+				generic_mutations::<PeerError>(cx, 1, false, 'A', &bpe, 12, 6);
+			}
 			let mut m = pe.code.to_be_bytes().to_vec();
 			m.extend_from_slice(&(bad.len() as u64).to_be_bytes());
 			m.extend_from_slice(bad);
 			dec_case::<PeerError>(cx, 1, false, 'A', &m, None, Expect::Reject, "invalid-utf8");
+		}
+		if i == 0 {
+			string_field_cases::<PeerError>(cx, &pe.code.to_be_bytes(), &[], &[1, 3]);
+		}
+	}
+	// user agents / messages of the greatest length one read may have (100 000 bytes) and one more:
+	// the first must round-trip, the second is written by the writer and refused by the reader
+	for (len, ok) in [(100_000usize, true), (100_001, false)].iter() {
+		let ua = "u".repeat(*len);
+		let h = Hand {
+			version: ProtocolVersion(1000),
+			capabilities: Capabilities::default(),
+			nonce: 1,
+			genesis: hash32(&mut cx.rng),
+			total_difficulty: Difficulty::from_num(1),
+			sender_addr: gen_addr(&mut cx.rng, 0),
+			receiver_addr: gen_addr(&mut cx.rng, 1),
+			user_agent: ua.clone(),
+		};
+		let s = Shake {
+			version: ProtocolVersion(1000),
+			capabilities: Capabilities::default(),
+			genesis: hash32(&mut cx.rng),
+			total_difficulty: Difficulty::from_num(1),
+			user_agent: ua.clone(),
+		};
+		let pe = PeerError { code: 7, message: ua };
+		let exp = if *ok { Expect::Valid } else { Expect::Reject };
+		let what = if *ok { "string-at-cap" } else { "string-over-cap" };
+		if *ok {
+			cx.corner("Hand:maximal-user-agent(100000 bytes)");
+			cx.corner("Shake:maximal-user-agent(100000 bytes)");
+			cx.corner("PeerError:maximal-message(100000 bytes)");
+		}
+		if let Some(b) = own_enc(cx, &h, 1) {
+			dec_case::<Hand>(cx, 1, false, 'A', &b, Some(&h), exp, what);
+		}
+		if let Some(b) = own_enc(cx, &s, 1) {
+			dec_case::<Shake>(cx, 1, false, 'A', &b, Some(&s), exp, what);
+		}
+		if let Some(b) = own_enc(cx, &pe, 1) {
+			dec_case::<PeerError>(cx, 1, false, 'A', &b, Some(&pe), exp, what);
 		}
 	}
 	// PeerAddrs: counts around MAX_PEER_ADDRS
 	for (k, cnt) in [0usize, 1, 2, 7, 255, 256, 257, 300].iter().enumerate() {
 		let peers: Vec<PeerAddr> = (0..*cnt).map(|j| gen_addr(&mut cx.rng, (j + k) as u64)).collect();
 		let pa = PeerAddrs { peers };
+		match cnt {
+			0 => cx.corner("PeerAddrs:0-addrs"),
+			1 => cx.corner("PeerAddrs:1-addr"),
+			256 => cx.corner("PeerAddrs:maximal(256 addrs)"),
+			_ => {}
+		}
+		let b = match own_enc(cx, &pa, 1) {
+			Some(b) => b,
+			None => continue,
+		};
 		if *cnt <= 256 {
 			roundtrip_all(cx, 'A', false, &pa, *cnt <= 7);
 		} else {
 			// the writer does not refuse; the reader does
-			let b = enc_at(&pa, 1).unwrap();
 			dec_case::<PeerAddrs>(cx, 1, false, 'A', &b, None, Expect::Reject, "count-over-max-peer-addrs");
 		}
-		let b = enc_at(&pa, 1).unwrap();
 		for c in [*cnt as u32 + 1, 257, 65536, u32::MAX].iter() {
-			let mut m = b.clone();
-			m[..4].copy_from_slice(&c.to_be_bytes());
 			let exp = if *c > 256 { Expect::Reject } else { Expect::Any };
-			dec_case::<PeerAddrs>(cx, 1, false, 'A', &m, None, exp, if *c > 256 { "count-over-max-peer-addrs" } else { "count-vs-content" });
+			match patched(&b, 0, &c.to_be_bytes()) {
+				Some(m) => {
+					dec_case::<PeerAddrs>(cx, 1, false, 'A', &m, None, exp, if *c > 256 { "count-over-max-peer-addrs" } else { "count-vs-content" });
+				}
+				None => layout_fail(cx, "PeerAddrs", &b, 1),
+			}
 		}
 		if *cnt >= 1 && *cnt <= 7 {
-			let mut m = b.clone();
-			m[..4].copy_from_slice(&(*cnt as u32 - 1).to_be_bytes());
-			dec_case::<PeerAddrs>(cx, 1, false, 'A', &m, None, Expect::Any, "count-vs-content");
+			if let Some(m) = patched(&b, 0, &(*cnt as u32 - 1).to_be_bytes()) {
+				dec_case::<PeerAddrs>(cx, 1, false, 'A', &m, None, Expect::Any, "count-vs-content");
+			}
 			generic_mutations::<PeerAddrs>(cx, 1, false, 'A', &b, 10, 10);
 		}
 	}
@@ -3519,36 +4338,49 @@ fn messages(cx: &mut Ctx) {
 				.map(|j| if *cnt <= 20 { hash32(&mut cx.rng) } else { Hash::from_vec(&[(j % 256) as u8; 32]) })
 				.collect(),
 		};
+		match cnt {
+			0 => cx.corner("Locator:0-hashes"),
+			1 => cx.corner("Locator:1-hash"),
+			20 => cx.corner("Locator:maximal(20 hashes)"),
+			_ => {}
+		}
 		if *cnt <= 20 {
 			roundtrip_all(cx, 'A', false, &l, true);
-			let b = enc_at(&l, 1).unwrap();
+			let b = match own_enc(cx, &l, 1) {
+				Some(b) => b,
+				None => continue,
+			};
+			let count_byte = b.first().cloned().unwrap_or(0);
 			for c in [21u8, 22, 128, 255].iter() {
-				let mut m = b.clone();
-				m[0] = *c;
-				m.extend_from_slice(&vec![0u8; 32 * 255]);
-				dec_case::<Locator>(cx, 1, false, 'A', &m, None, Expect::Reject, "count-over-max-locators");
+				if let Some(mut m) = patched(&b, 0, &[*c]) {
+					m.extend_from_slice(&vec![0u8; 32 * 255]);
+					dec_case::<Locator>(cx, 1, false, 'A', &m, None, Expect::Reject, "count-over-max-locators");
+				}
 			}
 			if *cnt > 0 {
-				let mut m = b.clone();
-				m[0] -= 1;
+				if let Some(m) = patched(&b, 0, &[count_byte.wrapping_sub(1)]) {
+					dec_case::<Locator>(cx, 1, false, 'A', &m, None, Expect::Any, "count-vs-content");
+				}
+			}
+			if let Some(m) = patched(&b, 0, &[count_byte.wrapping_add(1)]) {
 				dec_case::<Locator>(cx, 1, false, 'A', &m, None, Expect::Any, "count-vs-content");
 			}
-			let mut m = b.clone();
-			m[0] += 1;
-			dec_case::<Locator>(cx, 1, false, 'A', &m, None, Expect::Any, "count-vs-content");
 		} else {
-			let b = enc_case(cx, 1, 'A', &l).unwrap();
-			let mut src = &b[..];
-			let r: Result<Locator, _> = ser::deserialize(&mut src, ProtocolVersion(1), DeserializationMode::default());
-			let value = format!("Locator {{ hashes: [h_0 .. h_{}] }} with h_j = 32 bytes of value j mod 256; encoding = {}… ({} bytes)", cnt - 1, hex(&b[..34]), b.len());
-			match r {
+			let b = match enc_case(cx, 1, 'A', &l) {
+				Ok(b) => b,
+				Err(_) => continue,
+			};
+			let head = hex(b.get(..34).unwrap_or(&b));
+			let count_byte = b.first().cloned().unwrap_or(0);
+			let value = format!("Locator {{ hashes: [h_0 .. h_{}] }} with h_j = 32 bytes of value j mod 256; encoding = {}… ({} bytes)", cnt - 1, head, b.len());
+			match dec_full::<Locator>(&b, 1) {
 				Err(e) => cx.out.raw(&format!(
 					"#KNOWN-PROBE C10 locator-count-not-checked-by-writer: {}: written with count byte {:02x} and refused by Locator::read ({})",
-					value, b[0], err_name(&e)
+					value, count_byte, e
 				)),
-				Ok(d) => cx.out.raw(&format!(
+				Ok((d, consumed)) => cx.out.raw(&format!(
 					"#KNOWN-PROBE C10 locator-count-not-checked-by-writer: {}: written with count byte {:02x} (len as u8) and read back as {} hashes leaving {} bytes unread",
-					value, b[0], d.hashes.len(), src.len()
+					value, count_byte, d.hashes.len(), b.len().saturating_sub(consumed)
 				)),
 			}
 		}
@@ -3556,6 +4388,7 @@ fn messages(cx: &mut Ctx) {
 	// BanReason: all reasons, unknown discriminants, short reads
 	for r in ALL_REASONS.iter() {
 		let br = BanReason { ban_reason: *r };
+		cx.corner("BanReason:each-of-the-8-reasons");
 		roundtrip_all(cx, 'A', false, &br, true);
 	}
 	for x in [8i32, 9, 255, 256, i32::MAX, -1, i32::MIN, 1 << 24].iter() {
@@ -3563,6 +4396,9 @@ fn messages(cx: &mut Ctx) {
 	}
 	for l in 0..4usize {
 		for fill in [0u8, 1, 7, 0xff].iter() {
+			if l == 0 {
+				cx.corner("BanReason:0-byte-body(accepted as None: known finding)");
+			}
 			dec_case::<BanReason>(cx, 1, false, 'A', &vec![*fill; l], None, Expect::Any, "short-read");
 		}
 	}
@@ -3574,16 +4410,35 @@ fn messages(cx: &mut Ctx) {
 			let hs: Vec<BlockHeader> = (0..*cnt).map(|_| gen_header(&mut cx.rng, *chain)).collect();
 			let toks: Vec<String> = hs.iter().map(|h| header_tokens(h)).collect();
 			let msg = Headers { headers: hs };
+			match cnt {
+				0 => cx.corner("Headers:0-headers"),
+				1 => cx.corner("Headers:1-header"),
+				_ => {}
+			}
 			for v in [1u32, 3].iter() {
-				let b = enc_at(&msg, *v).unwrap();
+				set_env(*chain, false);
+				let eb = enc_at(&msg, *v);
 				let lhs = format!("ser enc Headers {} {} {}{}{}", v, chain, cnt, if *cnt > 0 { " " } else { "" }, toks.join(" "));
-				cx.out.line(&lhs, &format!("{} none", hex(&b)));
-				let mut expect = (*cnt as u16).to_be_bytes().to_vec();
+				cx.out.line(&lhs, &format!("{} none", show_enc(&eb)));
+				let b = match eb {
+					Ok(b) => b,
+					Err(e) => {
+						cx.oracle_fail(format!("Headers cannot be encoded: {} headers ({}) [version {}]", cnt, e, v));
+						continue;
+					}
+				};
+				let mut expect = Some((*cnt as u16).to_be_bytes().to_vec());
 				for h in &msg.headers {
-					expect.extend_from_slice(&enc_at(h, *v).unwrap());
+					expect = match (expect, enc_at(h, *v)) {
+						(Some(mut e), Ok(hb)) => {
+							e.extend_from_slice(&hb);
+							Some(e)
+						}
+						_ => None,
+					};
 				}
-				if b != expect {
-					cx.out.raw(&format!("#ORACLE-FAIL C10 Headers v{}: encoding is not u16 count then the headers: {}", v, hex(&b)));
+				if expect.as_ref() != Some(&b) {
+					cx.oracle_fail(format!("Headers re-encodes differently: encoding is not u16 count then the headers: {} [version {}]", hex(&b), v));
 				}
 			}
 		}
@@ -3592,16 +4447,16 @@ fn messages(cx: &mut Ctx) {
 		// `headers.len() as u16`: 65536 headers are written with a count of 0
 		set_env('A', false);
 		let h = gen_header(&mut cx.rng, 'A');
-		let msg = Headers { headers: vec![h; 65536] };
-		let b = enc_at(&msg, 1).unwrap();
-		if b[0] == 0 && b[1] == 0 && b.len() > 2 {
-			let hb = enc_at(&msg.headers[0], 1).unwrap();
-			cx.out.raw(&format!(
-				"#KNOWN-PROBE C10 headers-count-not-checked-by-writer: Headers {{ headers: 65536 copies of the header {} }} is written with count bytes {} (len as u16) followed by {} bytes of headers",
-				hex(&hb),
-				hex(&b[..2]),
-				b.len() - 2
-			));
+		let msg = Headers { headers: vec![h.clone(); 65536] };
+		if let (Ok(b), Ok(hb)) = (enc_at(&msg, 1), enc_at(&h, 1)) {
+			if b.get(..2) == Some(&[0u8, 0][..]) && b.len() > 2 {
+				cx.out.raw(&format!(
+					"#KNOWN-PROBE C10 headers-count-not-checked-by-writer: Headers {{ headers: 65536 copies of the header {} }} is written with count bytes {} (len as u16) followed by {} bytes of headers",
+					hex(&hb),
+					hex(b.get(..2).unwrap_or(&[])),
+					b.len() - 2
+				));
+			}
 		}
 	}
 }
@@ -3614,6 +4469,8 @@ fn main() {
 		out: Out::stdout(),
 		rng: Rng::new(seed_from_env() ^ 0x5e7),
 		stats: BTreeMap::new(),
+		empties: BTreeMap::new(),
+		reported: BTreeSet::new(),
 		thorough: tier_thorough(),
 	};
 	if section == "all" || section == "prim" {
@@ -3638,11 +4495,23 @@ fn main() {
 	if section == "all" || section == "msg" {
 		messages(&mut cx);
 	}
+	cx.flush_gen_fails();
 	let stats = std::mem::take(&mut cx.stats);
 	// per type x version x kind x outcome
 	for (k, v) in stats.iter() {
 		cx.out.raw(&format!("#STAT {} = {}", k, v));
 	}
+	// the deliberately generated EMPTY / SINGLETON / MAXIMAL instances, per type and corner
+	let empties = std::mem::take(&mut cx.empties);
+	let mut per_type: BTreeMap<String, u64> = BTreeMap::new();
+	for (k, v) in empties.iter() {
+		cx.out.raw(&format!("#STAT empties {}={}", k, v));
+		*per_type.entry(k.split(':').next().unwrap_or(k).to_string()).or_insert(0) += v;
+	}
+	for (k, v) in per_type.iter() {
+		cx.out.raw(&format!("#STAT empties {}={}", k, v));
+	}
+	cx.out.raw(&format!("#STAT oracle failures printed = {}", cx.reported.len()));
 	cx.out.raw(&format!("#STAT lines = {}", cx.out.lines));
 	cx.out.flush();
 }
